@@ -377,15 +377,15 @@ Qed.
 
 (* (2) a stream below the cutoff is recovered through the mini FAT, and each of its mini sectors
    lies inside the root entry's chain of regular sectors *)
-Theorem mini_compose : forall (c : cfb) name d r mids,
-  find_dir name (directories c) = Some d -> 0 < d_len d -> d_len d < 4096 ->
+Theorem mini_compose : forall (c : cfb) path d r mids,
+  find_entry (directories c) path = Some d -> 0 < d_len d -> d_len d < 4096 ->
   ssize (mini_sectors c) = 64 ->
   Chain (mini_fats c) (d_start d) mids -> NoDup mids ->
   (forall m, In m mids -> (m + 1) * 64 <= lenN (sdata (mini_sectors c))) ->
-  get_stream c name r
+  get_stream c path r
   = Ok (trunc_spec (d_len d) (concat (map (sector 64 (sdata (mini_sectors c))) mids)), c, r).
 Proof.
-  intros c name d r mids Hf Hpos Hlen Hss Hc Hnd Hin. unfold get_stream. rewrite Hf.
+  intros c path d r mids Hf Hpos Hlen Hss Hc Hnd Hin. unfold get_stream. rewrite Hf.
   replace (d_len d =? 0) with false by (symmetry; apply N.eqb_neq; lia).
   replace (d_len d <? 4096) with true by (symmetry; apply N.ltb_lt; exact Hlen).
   rewrite (@get_chain_cached (mini_fats c) (d_start d) mids (mini_sectors c) r (d_len d) Hc Hnd).
@@ -394,10 +394,10 @@ Proof.
 Qed.
 
 (* a zero-length entry reads as the empty stream whatever its start field holds *)
-Theorem empty_stream : forall (c : cfb) name d r,
-  find_dir name (directories c) = Some d -> d_len d = 0 -> get_stream c name r = Ok ([], c, r).
+Theorem empty_stream : forall (c : cfb) path d r,
+  find_entry (directories c) path = Some d -> d_len d = 0 -> get_stream c path r = Ok ([], c, r).
 Proof.
-  intros c name d r Hf H0. unfold get_stream. rewrite Hf, H0. reflexivity.
+  intros c path d r Hf H0. unfold get_stream. rewrite Hf, H0. reflexivity.
 Qed.
 
 Theorem mini_sector_in_root_chain : forall ss body rootids rlen m,
@@ -1109,10 +1109,15 @@ Proof.
 Qed.
 
 (* ------------------------------------------------------------------ the directory *)
-Definition dirent_of_item (it : list N * N * N * N) : dirent :=
-  {| d_name := fst (fst (fst it)); d_start := snd (fst it); d_len := snd it |}.
-Definition parsed_dirs c l : list dirent :=
-  map (fun i => dirent_of_item (dir_item c l i)) (seqN (nslots c l)).
+(* the entry Cfb::new builds from what cfb_write lays down in slot i: the item of the slot and the
+   three link fields (32-bit values on disk) *)
+Definition u32 (x : N) : N := x mod 4294967296.
+Definition dirent_of (lk : N * N * N) (it : list N * N * N * N) : dirent :=
+  {| d_name := fst (fst (fst it));
+     d_left := u32 (fst (fst lk)); d_right := u32 (snd (fst lk)); d_child := u32 (snd lk);
+     d_start := snd (fst it); d_len := snd it |}.
+Definition entry_at c l (i : N) : dirent := dirent_of (link_of (link_table l) i) (dir_item c l i).
+Definition parsed_dirs c l : list dirent := map (entry_at c l) (seqN (nslots c l)).
 
 Lemma valid_dir : forall c l, valid_layout c l ->
   NoDup (l_slots l) /\ (forall s, In s (l_slots l) -> 1 <= s < N.of_nat (nslots c l)) /\
@@ -1162,59 +1167,30 @@ Proof.
   - apply IH; assumption.
 Qed.
 
+(* every item of the container has a slot, and the entry of that slot is in the directory *)
 Lemma item_in_dirs : forall c l it, valid_layout c l -> In it (items c l) ->
-  In (dirent_of_item it) (parsed_dirs c l).
+  exists s, In (s, it) (slot_table c l) /\ dir_item c l s = it /\ In (entry_at c l s) (parsed_dirs c l).
 Proof.
   intros c l it Hv Hit. destruct (valid_dir Hv) as [Hnd [Hrange [Hls [Hlc _]]]].
   destruct (@in_combine_exists _ _ (l_slots l) (items c l) it) as [s Hs];
     [rewrite (items_length c l Hlc); exact Hls|exact Hit|].
   pose proof (in_combine_l _ _ _ _ Hs) as Hsl. destruct (Hrange s Hsl) as [H1 H2].
-  unfold parsed_dirs. apply in_map_iff. exists s. split.
-  - f_equal. unfold dir_item, dir_item_of.
+  exists s. split; [exact Hs|].
+  assert (Hdi : dir_item c l s = it).
+  { unfold dir_item, dir_item_of.
     replace (s =? 0) with false by (symmetry; apply N.eqb_neq; lia).
     unfold slot_table. rewrite (assocN_In _ s it); [reflexivity| |exact Hs].
-    rewrite map_fst_combine, (items_length c l Hlc), <- Hls, firstn_all. exact Hnd.
-  - unfold seqN. apply seqN_from_In. lia.
+    rewrite map_fst_combine, (items_length c l Hlc), <- Hls, firstn_all. exact Hnd. }
+  split; [exact Hdi|].
+  unfold parsed_dirs. apply in_map_iff. exists s. split; [reflexivity|].
+  unfold seqN. apply seqN_from_In. lia.
 Qed.
 
-(* all names of the container distinct (over the whole file, not only per storage): the flat
-   lookup of calamine then cannot meet another entry *)
+(* all names of the container distinct (over the whole file, not only per storage): a flat scan
+   of the directory array then cannot meet another entry *)
 Definition names_unique (c : container) : Prop := names_uniqueb c = true.
 Lemma names_unique_NoDup : forall c, names_unique c -> NoDup (all_names c).
 Proof. intros c H. apply nodup_listb_NoDup. exact H. Qed.
-
-Lemma dirs_name_unique : forall c l d it, valid_layout c l -> names_unique c ->
-  In d (parsed_dirs c l) -> In it (items c l) -> d_name d = fst (fst (fst it)) ->
-  d = dirent_of_item it.
-Proof.
-  intros c l d it Hv Hu Hd Hit Hname. destruct (valid_dir Hv) as [_ [_ [_ [Hlc [Hval _]]]]].
-  pose proof (names_unique_NoDup Hu) as Hndn.
-  pose proof (items_names _ _ _ Hit) as Hn. pose proof (Hval _ Hn) as Hvn.
-  unfold valid_nameb in Hvn. split_andb Hvn.
-  unfold parsed_dirs in Hd. apply in_map_iff in Hd. destruct Hd as [j [<- _]].
-  cbn [dirent_of_item d_name] in Hname. unfold dir_item, dir_item_of in *.
-  destruct (j =? 0).
-  - exfalso. cbn [root_item fst] in Hname. rewrite <- Hname in V. 
-    rewrite (proj2 (list_eqb_eq ROOT_NAME ROOT_NAME) eq_refl) in V. discriminate.
-  - destruct (assocN j (slot_table c l)) as [it'|] eqn:Ea.
-    + apply assocN_Some_In in Ea. unfold slot_table in Ea. apply in_combine_r in Ea.
-      f_equal. apply (NoDup_map_inj_on (fun it => fst (fst (fst it))) (items c l));
-        [rewrite (items_names_eq c l Hlc); exact Hndn|exact Ea|exact Hit|exact Hname].
-    + exfalso. cbn [unused_item fst] in Hname. rewrite <- Hname in Hvn.
-      cbn in Hvn. discriminate.
-Qed.
-
-Lemma find_item : forall c l it, valid_layout c l -> names_unique c -> In it (items c l) ->
-  find_dir (fst (fst (fst it))) (parsed_dirs c l) = Some (dirent_of_item it).
-Proof.
-  intros c l it Hv Hu Hit. unfold find_dir.
-  destruct (find (fun d => list_eqb (d_name d) (fst (fst (fst it)))) (parsed_dirs c l)) as [d|] eqn:E.
-  - apply find_some in E. destruct E as [Hd Hn]. apply list_eqb_eq in Hn.
-    f_equal. apply (@dirs_name_unique c l d it Hv Hu Hd Hit Hn).
-  - exfalso. pose proof (find_none _ _ E _ (@item_in_dirs c l it Hv Hit)) as H.
-    cbn [dirent_of_item d_name] in H.
-    rewrite (proj2 (list_eqb_eq _ _) eq_refl) in H. discriminate.
-Qed.
 
 Lemma stream_has_chain : forall c l n b, length (l_chains l) = length (c_streams c) ->
   In (n, b) (c_streams c) -> exists ch, In ((n, b), ch) (stream_chains c l).
@@ -1228,15 +1204,6 @@ Proof.
   apply G; [symmetry; exact Hlen|exact Hin].
 Qed.
 
-(* ------------------------------------------------------------------ (3, partial) *)
-(* the Cfb value made of the tables that cfb_write lays down: what Cfb::new computes once the
-   header, the DIFAT, the FAT sectors, the directory sectors and the mini FAT sectors have been
-   parsed back (that byte-level step is the part not proved here) *)
-Definition parsed_cfb c l (ms : sectors) : cfb :=
-  {| directories := parsed_dirs c l; main_sectors := ms; fats := fat_table c l;
-     mini_sectors := {| sdata := ministream_read c l; ssize := 64 |};
-     mini_fats := minifat_table c l |}.
-
 Lemma hd_nonempty : forall (d1 d2 : N) (l : list N), l <> [] -> hd d1 l = hd d2 l.
 Proof. intros d1 d2 [|x l] H; [contradiction|reflexivity]. Qed.
 
@@ -1245,75 +1212,6 @@ Lemma nonempty_stream_chain : forall c l n b ch, valid_layout c l ->
 Proof.
   intros c l n b ch Hv Hin Hpos. destruct (stream_ok_facts _ _ _ Hv Hin) as [Hlen _].
   intros ->. cbn [length] in Hlen. lia.
-Qed.
-
-Theorem layout_independent_partial : forall c l, valid_layout c l -> names_unique c ->
-  forall n b, In (n, b) (c_streams c) ->
-  forall ms r, Inv (c_ss c) (body_bytes c l) ms r ->
-  exists c' r', get_stream (parsed_cfb c l ms) n r = Ok (b, c', r').
-Proof.
-  intros c l Hv Hu n b Hin ms r HI.
-  destruct (valid_dir Hv) as [_ [_ [_ [Hlc _]]]].
-  destruct (stream_has_chain c l n b Hlc Hin) as [ch Hch].
-  set (it := (n, 2, hd (l_empty_start l) ch, lenN b)).
-  assert (Hit : In it (items c l)).
-  { unfold items. apply in_or_app. right. apply in_map_iff. exists ((n, b), ch). split; [reflexivity|exact Hch]. }
-  pose proof (@find_item c l it Hv Hu Hit) as Hf. subst it. cbn [fst] in Hf.
-  destruct (stream_ok_facts _ _ _ Hv Hch) as [_ [H32 _]].
-  destruct (N.eq_dec (lenN b) 0) as [H0|Hne].
-  { (* the empty stream *)
-    rewrite (@empty_stream (parsed_cfb c l ms) n _ r Hf) by exact H0.
-    rewrite lenN_length in H0. destruct b; [|cbn in H0; lia]. eexists; eexists; reflexivity. }
-  assert (Hpos : 0 < lenN b) by lia.
-  pose proof (@nonempty_stream_chain c l n b ch Hv Hch Hpos) as Hchne.
-  rewrite (hd_nonempty (l_empty_start l) ENDOFCHAIN Hchne) in Hf.
-  destruct (is_big b) eqn:Hbig.
-  - destruct (@big_stream_read c l n b ch Hv Hch Hbig) as [Hc [Hnd [Hb Hres]]].
-    unfold get_stream. cbn [parsed_cfb directories]. rewrite Hf.
-    unfold dirent_of_item. cbn [d_len d_start snd fst].
-    replace (lenN b =? 0) with false by (symmetry; apply N.eqb_neq; exact Hne).
-    unfold is_big, MINI_CUTOFF in Hbig. apply N.leb_le in Hbig.
-    replace (lenN b <? 4096) with false by (symmetry; apply N.ltb_ge; exact Hbig).
-    cbn [main_sectors fats parsed_cfb].
-    destruct (@chain_follow (fat_table c l) (c_ss c) (body_bytes c l) (hd ENDOFCHAIN ch) ch (lenN b) ms r
-                Hc Hnd HI Hb) as [s' [r' [Hg _]]].
-    rewrite Hg. cbn [obind]. rewrite Hres. eexists; eexists; reflexivity.
-  - destruct (@small_stream_read c l n b ch Hv Hch Hbig) as [Hc [Hnd [Hb Hres]]].
-    assert (Hlt : lenN b < 4096).
-    { unfold is_big, MINI_CUTOFF in Hbig. apply N.leb_gt in Hbig. exact Hbig. }
-    rewrite (@mini_compose (parsed_cfb c l ms) n _ r ch Hf).
-    + unfold dirent_of_item. cbn [d_len snd parsed_cfb mini_sectors sdata]. rewrite Hres.
-      eexists; eexists; reflexivity.
-    + exact Hpos.
-    + exact Hlt.
-    + reflexivity.
-    + exact Hc.
-    + exact Hnd.
-    + exact Hb.
-Qed.
-
-Theorem has_directory_partial : forall c l ms, valid_layout c l ->
-  forall n, In n (all_names c) -> has_directory (parsed_cfb c l ms) n = true.
-Proof.
-  intros c l ms Hv n Hn. destruct (valid_dir Hv) as [_ [_ [_ [Hlc _]]]].
-  rewrite <- (items_names_eq c l Hlc) in Hn. apply in_map_iff in Hn. destruct Hn as [it [<- Hit]].
-  unfold has_directory. apply existsb_exists. exists (dirent_of_item it).
-  split; [apply (@item_in_dirs c l it Hv Hit)|]. cbn [dirent_of_item d_name]. apply list_eqb_eq. reflexivity.
-Qed.
-
-(* two valid containers (any sector sizes, any layouts) holding the same stream read the same *)
-Corollary same_streams_same_read_partial : forall c1 l1 c2 l2 n b,
-  valid_layout c1 l1 -> valid_layout c2 l2 -> names_unique c1 -> names_unique c2 ->
-  In (n, b) (c_streams c1) -> In (n, b) (c_streams c2) ->
-  forall ms1 r1 ms2 r2, Inv (c_ss c1) (body_bytes c1 l1) ms1 r1 -> Inv (c_ss c2) (body_bytes c2 l2) ms2 r2 ->
-  exists x c1' r1' c2' r2',
-    get_stream (parsed_cfb c1 l1 ms1) n r1 = Ok (x, c1', r1') /\
-    get_stream (parsed_cfb c2 l2 ms2) n r2 = Ok (x, c2', r2').
-Proof.
-  intros c1 l1 c2 l2 n b H1 H2 U1 U2 I1 I2 ms1 r1 ms2 r2 J1 J2.
-  destruct (@layout_independent_partial c1 l1 H1 U1 n b I1 ms1 r1 J1) as [a1 [b1 E1]].
-  destruct (@layout_independent_partial c2 l2 H2 U2 n b I2 ms2 r2 J2) as [a2 [b2 E2]].
-  exists b, a1, b1, a2, b2. split; assumption.
 Qed.
 
 (* ================================================================== Part 3: bytes of the tables *)
@@ -1852,35 +1750,48 @@ Definition item_ok (it : list N * N * N * N) : Prop :=
   (length (utf16_encode (fst (fst (fst it)))) <= 31)%nat /\
   snd (fst it) < 4294967296 /\ snd it < 4294967296.
 
+Lemma le32_value_mod : forall x,
+  x mod 256 + 256 * ((x / 256) mod 256) + 65536 * ((x / 65536) mod 256)
+  + 16777216 * ((x / 16777216) mod 256) = x mod 4294967296.
+Proof. intros x. lia. Qed.
+
 Lemma from_slice_entry : forall ss hi lk it, ss = 512 \/ ss = 4096 -> item_ok it ->
-  from_slice (encode_entry ss hi lk it) ss = Ok (dirent_of_item it).
+  from_slice (encode_entry ss hi lk it) ss = Ok (dirent_of lk it).
 Proof.
   intros ss hi [[lft rgt] chd] [[[name typ] start] size] Hss (Hs & Hz & Hl & Hst & Hsz). cbn [fst snd] in *.
   assert (Hlen : length (encode_entry ss hi (lft, rgt, chd) (name, typ, start, size)) = 128%nat)
     by (apply encode_entry_length; lia).
   unfold from_slice. rewrite Hlen.
-  change (128 <? 64)%nat with false. change (128 <? 120)%nat with false.
+  change (128 <? 64)%nat with false. change (128 <? 80)%nat with false. change (128 <? 120)%nat with false.
   change (128 <? 124)%nat with false. change (128 <? 128)%nat with false. cbn iota.
-  unfold dirent_of_item. cbn [fst snd].
+  unfold dirent_of. cbn [fst snd].
   assert (Hx : length (pad_to 64 0 (bytes_le_of_units (utf16_encode name))) = 64%nat)
     by (apply pad_to_length; rewrite bytes_le_length; lia).
   unfold encode_entry.
   rewrite (firstn_app_len _ _ Hx), decode_name_roundtrip by (assumption || lia).
+  change 68%nat with (64 + 4)%nat. change 72%nat with (64 + 8)%nat. change 76%nat with (64 + 12)%nat.
   change 116%nat with (64 + 52)%nat. change 120%nat with (64 + 56)%nat.
-  rewrite (u32_at_app _ _ 52 Hx).
-  assert (H116 : forall tail, u32_at (le16 (if typ =? 0 then 0 else 2 * (N.of_nat (length (utf16_encode name)) + 1)) ++
+  rewrite (u32_at_app _ _ 4 Hx), (u32_at_app _ _ 8 Hx), (u32_at_app _ _ 12 Hx), (u32_at_app _ _ 52 Hx).
+  set (hd2 := le16 (if typ =? 0 then 0 else 2 * (N.of_nat (length (utf16_encode name)) + 1))).
+  assert (H68 : forall tail, u32_at (hd2 ++ [typ; 1] ++ le32 lft ++ tail) 4 = u32 lft).
+  { intros tail. unfold u32_at, hd2, u32. cbn [le16 le32 app repeat nth Nat.add]. apply le32_value_mod. }
+  assert (H72 : forall tail, u32_at (hd2 ++ [typ; 1] ++ le32 lft ++ le32 rgt ++ tail) 8 = u32 rgt).
+  { intros tail. unfold u32_at, hd2, u32. cbn [le16 le32 app repeat nth Nat.add]. apply le32_value_mod. }
+  assert (H76 : forall tail, u32_at (hd2 ++ [typ; 1] ++ le32 lft ++ le32 rgt ++ le32 chd ++ tail) 12 = u32 chd).
+  { intros tail. unfold u32_at, hd2, u32. cbn [le16 le32 app repeat nth Nat.add]. apply le32_value_mod. }
+  assert (H116 : forall tail, u32_at (hd2 ++
                   [typ; 1] ++ le32 lft ++ le32 rgt ++ le32 chd ++ repeat 0 36 ++
                   le32 start ++ tail) 52 = start).
-  { intros tail. unfold u32_at. cbn [le16 le32 app repeat nth Nat.add]. apply le32_value. exact Hst. }
-  rewrite H116.
+  { intros tail. unfold u32_at, hd2. cbn [le16 le32 app repeat nth Nat.add]. apply le32_value. exact Hst. }
+  rewrite H68, H72, H76, H116.
   destruct (ss =? 512) eqn:E.
   - rewrite (u32_at_app _ _ 56 Hx).
     replace (u32_at _ 56) with size; [reflexivity|].
-    unfold u32_at. cbn [le16 le32 app repeat nth Nat.add]. symmetry. apply le32_value. exact Hsz.
+    unfold u32_at, hd2. cbn [le16 le32 app repeat nth Nat.add]. symmetry. apply le32_value. exact Hsz.
   - unfold u64_at. change (4 + (64 + 56))%nat with (64 + 60)%nat.
     rewrite (u32_at_app _ _ 56 Hx), (u32_at_app _ _ 60 Hx).
     replace (u32_at _ 56 + 4294967296 * u32_at _ 60) with size; [reflexivity|].
-    unfold u32_at, le64. cbn [le16 le32 app repeat nth Nat.add].
+    unfold u32_at, le64, hd2. cbn [le16 le32 app repeat nth Nat.add].
     rewrite (le32_value (x := size mod 4294967296)) by lia.
     rewrite (le32_value (x := size / 4294967296)) by lia. lia.
 Qed.
@@ -1964,7 +1875,7 @@ Proof.
   rewrite chunks_blocks; [|lia|].
   2:{ intros b Hb. apply in_map_iff in Hb. destruct Hb as [i [<- _]]. apply dir_entry_length. exact Hv. }
   unfold parsed_dirs. apply map_outcome_map2. intros i _.
-  unfold dir_entry, dir_entry_of. fold (dir_item c l i).
+  unfold dir_entry, dir_entry_of, entry_at. fold (dir_item c l i).
   apply from_slice_entry; [exact Hss|apply dir_item_ok; exact Hv].
 Qed.
 
@@ -2136,6 +2047,7 @@ Proof.
   assert (Hd0 : d_start d0 = hd ENDOFCHAIN (l_root_ids l) /\ d_len d0 = l_nmini l * 64).
   { unfold parsed_dirs in Epd. destruct (nslots c l) as [|k]; [lia|].
     cbn [seqN seqN_from map] in Epd. injection Epd as E0 _. subst d0.
+    unfold entry_at, dirent_of. cbn [d_start d_len].
     unfold dir_item, dir_item_of. rewrite N.eqb_refl. split; reflexivity. }
   destruct Hd0 as [Hst Hln]. rewrite Hst, Hln.
   destruct (valid_minis Hv) as [_ [_ [Hcov _]]].
@@ -2157,25 +2069,24 @@ Definition stream_item (l : layout) (p : list N * list N * list N) : list N * N 
   (fst (fst p), 2, hd (l_empty_start l) (snd p), lenN (snd (fst p))).
 
 (* get_stream on any Cfb value that holds the written tables, ONCE THE LOOKUP ENDS ON THE ENTRY
-   OF THE STREAM: the bytes are the stream's *)
+   OF THE STREAM (an entry with its start and length fields): the bytes are the stream's *)
 Lemma get_stream_of_entry : forall c l cf r, valid_layout c l -> written_cfb c l cf r ->
-  forall n b ch, In ((n, b), ch) (stream_chains c l) ->
-  find_dir n (directories cf) = Some (dirent_of_item (stream_item l ((n, b), ch))) ->
-  exists c' r', get_stream cf n r = Ok (b, c', r').
+  forall path n b ch d, In ((n, b), ch) (stream_chains c l) ->
+  find_entry (directories cf) path = Some d ->
+  d_start d = hd (l_empty_start l) ch -> d_len d = lenN b ->
+  exists c' r', get_stream cf path r = Ok (b, c', r').
 Proof.
-  intros c l cf r Hv (Hdirs & Hfats & HI & Hmini) n b ch Hch Hf.
-  unfold stream_item in Hf. cbn [fst snd] in Hf.
+  intros c l cf r Hv (Hdirs & Hfats & HI & Hmini) path n b ch d Hch Hf Hst Hln.
   destruct (stream_ok_facts _ _ _ Hv Hch) as [_ [H32 _]].
   destruct (N.eq_dec (lenN b) 0) as [H0|Hne].
-  { rewrite (@empty_stream cf n _ r Hf) by exact H0.
+  { rewrite (@empty_stream cf path d r Hf) by (rewrite Hln; exact H0).
     rewrite lenN_length in H0. destruct b; [|cbn in H0; lia]. eexists; eexists; reflexivity. }
   assert (Hpos : 0 < lenN b) by lia.
   pose proof (@nonempty_stream_chain c l n b ch Hv Hch Hpos) as Hchne.
-  rewrite (hd_nonempty (l_empty_start l) ENDOFCHAIN Hchne) in Hf.
+  rewrite (hd_nonempty (l_empty_start l) ENDOFCHAIN Hchne) in Hst.
   destruct (is_big b) eqn:Hbig.
   - destruct (@big_stream_read c l n b ch Hv Hch Hbig) as [Hc [Hnd [Hb Hres]]].
-    unfold get_stream. rewrite Hf.
-    unfold dirent_of_item. cbn [d_len d_start snd fst].
+    unfold get_stream. rewrite Hf, Hln, Hst.
     replace (lenN b =? 0) with false by (symmetry; apply N.eqb_neq; exact Hne).
     unfold is_big, MINI_CUTOFF in Hbig. apply N.leb_le in Hbig.
     replace (lenN b <? 4096) with false by (symmetry; apply N.ltb_ge; exact Hbig).
@@ -2187,13 +2098,12 @@ Proof.
     + destruct (@small_stream_read c l n b ch Hv Hch Hbig) as [Hc [Hnd [Hb Hres]]].
       assert (Hlt : lenN b < 4096).
       { unfold is_big, MINI_CUTOFF in Hbig. apply N.leb_gt in Hbig. exact Hbig. }
-      rewrite (@mini_compose cf n _ r ch Hf).
-      * unfold dirent_of_item. cbn [d_len snd]. rewrite Hms. cbn [sdata]. rewrite Hres.
-        eexists; eexists; reflexivity.
-      * exact Hpos.
-      * exact Hlt.
+      rewrite (@mini_compose cf path d r ch Hf).
+      * rewrite Hln, Hms. cbn [sdata]. rewrite Hres. eexists; eexists; reflexivity.
+      * rewrite Hln. exact Hpos.
+      * rewrite Hln. exact Hlt.
       * rewrite Hms. reflexivity.
-      * rewrite Hmf. exact Hc.
+      * rewrite Hmf, Hst. exact Hc.
       * exact Hnd.
       * rewrite Hms. exact Hb.
     + exfalso. destruct (valid_minis Hv) as [_ [Hmlt _]].
@@ -2203,61 +2113,37 @@ Proof.
       split; [reflexivity|]. apply filter_In. split; [exact Hch|cbn [fst snd]; rewrite Hbig; reflexivity].
 Qed.
 
-(* names distinct over the whole file: every stream is read back *)
-Theorem get_stream_written : forall c l cf r, valid_layout c l -> names_unique c -> written_cfb c l cf r ->
-  forall n b, In (n, b) (c_streams c) ->
-  exists c' r', get_stream cf n r = Ok (b, c', r').
-Proof.
-  intros c l cf r Hv Hu Hw n b Hin.
-  destruct (valid_dir Hv) as [_ [_ [_ [Hlc _]]]].
-  destruct (stream_has_chain c l n b Hlc Hin) as [ch Hch].
-  assert (Hit : In (stream_item l ((n, b), ch)) (items c l)).
-  { unfold items. apply in_or_app. right. apply in_map_iff. exists ((n, b), ch). split; [reflexivity|exact Hch]. }
-  pose proof (@find_item c l _ Hv Hu Hit) as Hf. cbn [stream_item fst snd] in Hf.
-  destruct Hw as (Hdirs & Hrest). rewrite <- Hdirs in Hf.
-  apply (@get_stream_of_entry c l cf r Hv (conj Hdirs Hrest) n b ch Hch). exact Hf.
-Qed.
-
-(* (3) layout independence, through the bytes *)
-Theorem layout_independent : forall c l fuel, valid_layout c l -> names_unique c -> (fuel_for l <= fuel)%nat ->
-  forall n b, In (n, b) (c_streams c) -> cfb_get_stream fuel (cfb_write c l) n = Ok b.
-Proof.
-  intros c l fuel Hv Hu Hfuel n b Hin. unfold cfb_get_stream.
-  destruct (cfb_new_written Hv Hfuel) as [cf [r [Hnew Hw]]]. rewrite Hnew. cbn [obind].
-  destruct (get_stream_written Hv Hu Hw n b Hin) as [c' [r' Hg]]. rewrite Hg. reflexivity.
-Qed.
-
-Corollary same_streams_same_read : forall c1 l1 c2 l2 n b,
-  valid_layout c1 l1 -> valid_layout c2 l2 -> names_unique c1 -> names_unique c2 ->
-  In (n, b) (c_streams c1) -> In (n, b) (c_streams c2) ->
-  cfb_get_stream (fuel_for l1) (cfb_write c1 l1) n = cfb_get_stream (fuel_for l2) (cfb_write c2 l2) n.
-Proof.
-  intros c1 l1 c2 l2 n b H1 H2 U1 U2 I1 I2.
-  rewrite (layout_independent H1 U1 (le_n _) n b I1), (layout_independent H2 U2 (le_n _) n b I2). reflexivity.
-Qed.
-
-(* interface for C20: the written file opens and every name is listed in the directory *)
-Theorem written_names_listed : forall c l fuel, valid_layout c l -> (fuel_for l <= fuel)%nat ->
-  exists cf r, cfb_new fuel (cfb_write c l) = Ok (cf, r) /\
-    forall n, In n (all_names c) ->
-      (exists d, In d (directories cf) /\ d_name d = n) /\ has_directory cf n = true.
-Proof.
-  intros c l fuel Hv Hfuel. destruct (cfb_new_written Hv Hfuel) as [cf [r [Hnew (Hdirs & _)]]].
-  exists cf, r. split; [exact Hnew|]. intros n Hn.
-  destruct (valid_dir Hv) as [_ [_ [_ [Hlc _]]]].
-  rewrite <- (items_names_eq c l Hlc) in Hn. apply in_map_iff in Hn. destruct Hn as [it [<- Hit]].
-  pose proof (@item_in_dirs c l it Hv Hit) as Hd. rewrite <- Hdirs in Hd.
-  split; [exists (dirent_of_item it); split; [exact Hd|reflexivity]|].
-  unfold has_directory. apply existsb_exists. exists (dirent_of_item it).
-  split; [exact Hd|]. cbn [dirent_of_item d_name]. apply list_eqb_eq. reflexivity.
-Qed.
-
-(* ================================================================== Part 4b: duplicate names *)
-(* names unique per storage only: which entry the flat scan of Cfb::get_stream reaches *)
+(* ================================================================== Part 4b: entries and slots *)
 Lemma list_eqb_refl : forall a, list_eqb a a = true.
 Proof. intros a. apply list_eqb_eq. reflexivity. Qed.
 Lemma list_eqb_neq : forall a b, a <> b -> list_eqb a b = false.
 Proof. intros a b H. destruct (list_eqb a b) eqn:E; [apply list_eqb_eq in E; contradiction|reflexivity]. Qed.
+
+Lemma nthN_nth_error : forall (A : Type) (l : list A) i, nthN l i = nth_error l (N.to_nat i).
+Proof.
+  induction l as [|x l IH]; intros i; cbn [nthN].
+  - destruct (N.to_nat i); reflexivity.
+  - destruct (i =? 0) eqn:E.
+    + apply N.eqb_eq in E. subst i. reflexivity.
+    + apply N.eqb_neq in E. rewrite IH.
+      replace (N.to_nat i) with (S (N.to_nat (N.pred i))) by lia. reflexivity.
+Qed.
+
+Lemma parsed_dirs_length : forall c l, length (parsed_dirs c l) = nslots c l.
+Proof. intros c l. unfold parsed_dirs. rewrite map_length. apply seqN_length. Qed.
+
+Lemma nthN_parsed : forall c l i, i < N.of_nat (nslots c l) ->
+  nthN (parsed_dirs c l) i = Some (entry_at c l i).
+Proof.
+  intros c l i Hi. rewrite nthN_nth_error. unfold parsed_dirs.
+  rewrite (map_nth_error (entry_at c l) (N.to_nat i) (seqN (nslots c l)) (d := i)); [reflexivity|].
+  rewrite seqN_nth by lia. rewrite N2Nat.id. reflexivity.
+Qed.
+
+Lemma nthN_parsed_none : forall c l i, N.of_nat (nslots c l) <= i -> nthN (parsed_dirs c l) i = None.
+Proof.
+  intros c l i Hi. rewrite nthN_nth_error. apply nth_error_None. rewrite parsed_dirs_length. lia.
+Qed.
 
 Lemma find_map_seqN_from : forall (A : Type) (p : A -> bool) (f : N -> A) n start s,
   start <= s -> s < start + N.of_nat n -> p (f s) = true ->
@@ -2333,6 +2219,15 @@ Proof.
   unfold slot_table. rewrite map_fst_combine, (items_length c l Hlc), <- Hls, firstn_all. exact Hnd.
 Qed.
 
+(* the entry of a slot that holds an item: its name, start and length *)
+Lemma entry_at_item : forall c l s it, valid_layout c l -> In (s, it) (slot_table c l) ->
+  d_name (entry_at c l s) = item_name it /\ d_start (entry_at c l s) = snd (fst it) /\
+  d_len (entry_at c l s) = snd it.
+Proof.
+  intros c l s it Hv Hs. destruct (dir_item_at _ _ Hv Hs) as [E _].
+  unfold entry_at, dirent_of. cbn [d_name d_start d_len]. rewrite E. repeat split.
+Qed.
+
 Lemma slot_item_unique : forall c l s it it', valid_layout c l ->
   In (s, it) (slot_table c l) -> In (s, it') (slot_table c l) -> it = it'.
 Proof.
@@ -2352,30 +2247,39 @@ Proof.
   - rewrite list_eqb_refl in V. discriminate.
 Qed.
 
-(* (G8) Cfb::get_stream / find_dir on a written container: the entry in the LOWEST slot among the
-   objects carrying the name — whatever storage holds it, storage or stream — or none *)
+(* the names of the directory array of a written container: the root entry, unused slots (empty
+   name), and the names of the container *)
+Lemma entry_at_name : forall c l i, valid_layout c l ->
+  d_name (entry_at c l i) = ROOT_NAME \/ d_name (entry_at c l i) = [] \/
+  (exists it, In (i, it) (slot_table c l) /\ d_name (entry_at c l i) = item_name it).
+Proof.
+  intros c l i Hv. unfold entry_at, dirent_of. cbn [d_name]. unfold dir_item, dir_item_of.
+  destruct (i =? 0); [left; reflexivity|].
+  destruct (assocN i (slot_table c l)) as [it|] eqn:E; [|right; left; reflexivity].
+  right; right. exists it. split; [apply assocN_Some_In; exact E|reflexivity].
+Qed.
+
+(* the flat scan on a written container: the entry in the LOWEST slot among the objects carrying
+   the name — whatever storage holds it, storage or stream — or none *)
 Theorem find_dir_first : forall c l n, valid_layout c l -> n <> [] -> n <> ROOT_NAME ->
   find_dir n (parsed_dirs c l) =
   match first_slot c l n with
-  | Some s => Some (dirent_of_item (dir_item c l s))
+  | Some s => Some (entry_at c l s)
   | None => None
   end.
 Proof.
   intros c l n Hv Hne Hnr. unfold find_dir, parsed_dirs, seqN, first_slot.
   set (p := fun d : dirent => list_eqb (d_name d) n).
-  set (f := fun i : N => dirent_of_item (dir_item c l i)).
+  set (f := entry_at c l).
   assert (Hother : forall i, (forall it, In (i, it) (slot_table c l) -> item_name it <> n) -> p (f i) = false).
-  { intros i Hi. unfold p, f. cbn [dirent_of_item d_name]. apply list_eqb_neq.
-    unfold dir_item, dir_item_of. destruct (i =? 0).
-    - cbn [root_item fst]. congruence.
-    - destruct (assocN i (slot_table c l)) as [it|] eqn:Ea.
-      + apply assocN_Some_In in Ea. apply (Hi _ Ea).
-      + cbn [unused_item fst]. congruence. }
+  { intros i Hi. unfold p, f. apply list_eqb_neq.
+    destruct (@entry_at_name c l i Hv) as [E|[E|[it [Hin E]]]]; rewrite E; try congruence.
+    apply (Hi _ Hin). }
   destruct (min_slot n (slot_table c l)) as [s|] eqn:E.
   - destruct (min_slot_some _ _ E) as [[it [Hin Hn]] Hmin].
     destruct (dir_item_at _ _ Hv Hin) as [Hit [Hs1 Hs2]].
     apply (@find_map_seqN_from _ p f (nslots c l) 0 s); [lia|lia| |].
-    + unfold p, f. cbn [dirent_of_item d_name]. rewrite Hit. fold (item_name it). rewrite Hn. apply list_eqb_refl.
+    + unfold p, f. destruct (entry_at_item _ _ Hv Hin) as [En _]. rewrite En, Hn. apply list_eqb_refl.
     + intros i _ Hi. apply Hother. intros it' Hin' Hn'. pose proof (Hmin _ _ Hin' Hn'). lia.
   - apply find_map_seqN_none. intros i _ _. apply Hother. intros it' Hin'. apply (@min_slot_none _ _ E _ _ Hin').
 Qed.
@@ -2409,104 +2313,6 @@ Proof.
   fold (stream_item l). rewrite (map_nth_error (stream_item l) _ _ Hsc). reflexivity.
 Qed.
 
-(* the general statement: the k-th stream is read back as soon as no object of the same name
-   sits in a lower directory slot *)
-Theorem get_stream_first : forall c l cf r, valid_layout c l -> written_cfb c l cf r ->
-  forall k n b s, nth_error (c_streams c) k = Some (n, b) -> stream_slot c l k = Some s ->
-  first_slot c l n = Some s ->
-  exists c' r', get_stream cf n r = Ok (b, c', r').
-Proof.
-  intros c l cf r Hv Hw k n b s Hk Hs Hfirst.
-  destruct (@stream_item_at c l k n b s Hv Hk Hs) as [ch [Hch Hin]].
-  destruct (valid_dir Hv) as [_ [_ [_ [_ [Hval _]]]]].
-  pose proof (slot_table_names _ _ _ _ Hin) as Hn. cbn [stream_item item_name fst snd] in Hn.
-  destruct (@valid_name_not_special n (Hval _ Hn)) as [Hne Hnr].
-  pose proof (@find_dir_first c l n Hv Hne Hnr) as Hf. rewrite Hfirst in Hf.
-  destruct (dir_item_at _ _ Hv Hin) as [Hit _]. rewrite Hit in Hf.
-  pose proof Hw as (Hdirs & _). rewrite <- Hdirs in Hf.
-  apply (@get_stream_of_entry c l cf r Hv Hw n b ch Hch Hf).
-Qed.
-
-Theorem layout_independent_first : forall c l fuel, valid_layout c l -> (fuel_for l <= fuel)%nat ->
-  forall k n b s, nth_error (c_streams c) k = Some (n, b) -> stream_slot c l k = Some s ->
-  first_slot c l n = Some s ->
-  cfb_get_stream fuel (cfb_write c l) n = Ok b.
-Proof.
-  intros c l fuel Hv Hfuel k n b s Hk Hs Hfirst. unfold cfb_get_stream.
-  destruct (cfb_new_written Hv Hfuel) as [cf [r [Hnew Hw]]]. rewrite Hnew. cbn [obind].
-  destruct (@get_stream_first c l cf r Hv Hw k n b s Hk Hs Hfirst) as [c' [r' Hg]]. rewrite Hg. reflexivity.
-Qed.
-
-(* a name carried by no object is not found *)
-Lemma get_stream_absent : forall c l cf r n, valid_layout c l -> written_cfb c l cf r ->
-  n <> [] -> n <> ROOT_NAME -> first_slot c l n = None -> get_stream cf n r = Err ERR_NOT_FOUND.
-Proof.
-  intros c l cf r n Hv (Hdirs & _) Hne Hnr Hnone. unfold get_stream.
-  rewrite Hdirs, (@find_dir_first c l n Hv Hne Hnr), Hnone. reflexivity.
-Qed.
-
-(* ------------------------------------------------------------------ Xls::parse_workbook *)
-Lemma workbook_names_ok : WORKBOOK <> [] /\ WORKBOOK <> ROOT_NAME /\ BOOK <> [] /\ BOOK <> ROOT_NAME.
-Proof. repeat split; discriminate. Qed.
-
-(* Excel's rule "Workbook preferred, Book as fallback", in ANY directory order: whatever slots
-   the two entries sit in, the workbook read is the stream Workbook when the lookup of that name
-   ends on it; with no object named Workbook at all it is Book *)
-Theorem workbook_stream_preferred : forall c l fuel, valid_layout c l -> (fuel_for l <= fuel)%nat ->
-  (forall k b s, nth_error (c_streams c) k = Some (WORKBOOK, b) -> stream_slot c l k = Some s ->
-     first_slot c l WORKBOOK = Some s -> xls_workbook_stream fuel (cfb_write c l) = Ok b) /\
-  (forall k b s, first_slot c l WORKBOOK = None ->
-     nth_error (c_streams c) k = Some (BOOK, b) -> stream_slot c l k = Some s ->
-     first_slot c l BOOK = Some s -> xls_workbook_stream fuel (cfb_write c l) = Ok b).
-Proof.
-  intros c l fuel Hv Hfuel. destruct workbook_names_ok as (W1 & W2 & B1 & B2).
-  destruct (cfb_new_written Hv Hfuel) as [cf [r [Hnew Hw]]].
-  unfold xls_workbook_stream. rewrite Hnew. cbn [obind]. unfold workbook_or_book. split.
-  - intros k b s Hk Hs Hf. destruct (@get_stream_first c l cf r Hv Hw k WORKBOOK b s Hk Hs Hf) as [c' [r' Hg]].
-    rewrite Hg. reflexivity.
-  - intros k b s Hnone Hk Hs Hf. rewrite (@get_stream_absent c l cf r WORKBOOK Hv Hw W1 W2 Hnone).
-    destruct (@get_stream_first c l cf r Hv Hw k BOOK b s Hk Hs Hf) as [c' [r' Hg]]. rewrite Hg. reflexivity.
-Qed.
-
-(* with names distinct over the whole file: a container holding both streams reads Workbook,
-   wherever the two entries are; one holding only Book reads Book *)
-Corollary workbook_stream_preferred_unique : forall c l fuel, valid_layout c l -> names_unique c ->
-  (fuel_for l <= fuel)%nat ->
-  (forall bw, In (WORKBOOK, bw) (c_streams c) -> xls_workbook_stream fuel (cfb_write c l) = Ok bw) /\
-  (forall bb, ~ In WORKBOOK (all_names c) -> In (BOOK, bb) (c_streams c) ->
-     xls_workbook_stream fuel (cfb_write c l) = Ok bb).
-Proof.
-  intros c l fuel Hv Hu Hfuel. destruct workbook_names_ok as (W1 & W2 & B1 & B2).
-  destruct (cfb_new_written Hv Hfuel) as [cf [r [Hnew Hw]]].
-  unfold xls_workbook_stream. rewrite Hnew. cbn [obind]. unfold workbook_or_book. split.
-  - intros bw Hin. destruct (@get_stream_written c l cf r Hv Hu Hw _ _ Hin) as [c' [r' Hg]]. rewrite Hg. reflexivity.
-  - intros bb Hno Hin.
-    rewrite (@get_stream_absent c l cf r WORKBOOK Hv Hw W1 W2).
-    + destruct (@get_stream_written c l cf r Hv Hu Hw _ _ Hin) as [c' [r' Hg]]. rewrite Hg. reflexivity.
-    + apply min_slot_none_iff. intros s it Hsi Hn. apply Hno. rewrite <- Hn. apply (slot_table_names _ _ _ _ Hsi).
-Qed.
-
-(* ------------------------------------------------------------------ any tree, outside class 2 *)
-Lemma root_stream_from_spec : forall c n ss k0 k b, root_stream_from c n k0 ss = Some (k, b) ->
-  (k0 <= k)%nat /\ nth_error ss (k - k0) = Some (n, b) /\ parent_of c (length (c_storages c) + k) = 0.
-Proof.
-  intros c n. induction ss as [|[n' b'] r IH]; intros k0 k b H; [discriminate|].
-  cbn [root_stream_from] in H.
-  destruct (list_eqb n' n && (parent_of c (length (c_storages c) + k0) =? 0)) eqn:E.
-  - inversion H; subst. apply andb_prop in E. destruct E as [E1 E2].
-    apply list_eqb_eq in E1. apply N.eqb_eq in E2. subst n'.
-    rewrite Nat.sub_diag. split; [lia|split; [reflexivity|exact E2]].
-  - destruct (IH _ _ _ H) as [H1 [H2 H3]]. split; [lia|split; [|exact H3]].
-    replace (k - k0)%nat with (S (k - S k0)) by lia. exact H2.
-Qed.
-
-Lemma root_stream_spec : forall c n k b, root_stream c n = Some (k, b) ->
-  nth_error (c_streams c) k = Some (n, b) /\ parent_of c (length (c_storages c) + k) = 0.
-Proof.
-  intros c n k b H. destruct (root_stream_from_spec _ _ _ _ H) as [_ [H2 H3]].
-  rewrite Nat.sub_0_r in H2. split; assumption.
-Qed.
-
 Lemma stream_slot_exists : forall c l k x, valid_layout c l -> nth_error (c_streams c) k = Some x ->
   exists s, stream_slot c l k = Some s.
 Proof.
@@ -2516,34 +2322,912 @@ Proof.
     [exists s; reflexivity|]. apply nth_error_None in E. lia.
 Qed.
 
-(* MAIN for Xls::new over containers with a hierarchy: outside class 2 the bytes handed to the
-   BIFF parser are those of the root storage's Workbook stream, or of its Book stream when the
-   root has no Workbook — for every valid layout (any directory order) *)
-Theorem workbook_stream_known : forall c l fuel k b, valid_layout c l -> (fuel_for l <= fuel)%nat ->
-  spec_workbook c = Some (k, b) -> known_C13 c l = None ->
+(* ================================================================== Part 4c: no hierarchy written *)
+(* the root entry links to no child: Cfb::find scans the flat array for the last name of the path *)
+Definition flat_root (c : container) (l : layout) : Prop := flat_rootb c l = true.
+
+Lemma children_loop_nil : forall fuel ds seen acc, children_loop fuel ds seen [] acc = Ok (rev acc).
+Proof. intros [|f] ds seen acc; reflexivity. Qed.
+
+Lemma nslots_pos' : forall c l, valid_layout c l -> 0 < N.of_nat (nslots c l).
+Proof. intros c l Hv. pose proof (nslots_pos Hv). lia. Qed.
+
+Lemma entry_at_child : forall c l i, d_child (entry_at c l i) = u32 (snd (link_of (link_table l) i)).
+Proof. reflexivity. Qed.
+
+Lemma children_root_flat : forall c l, valid_layout c l -> flat_root c l ->
+  children (parsed_dirs c l) 0 = [].
+Proof.
+  intros c l Hv Hf. unfold children. rewrite (@nthN_parsed c l 0 (nslots_pos' Hv)).
+  rewrite entry_at_child. unfold flat_root, flat_rootb in Hf.
+  destruct (link_of (link_table l) 0) as [[a b] ch]. cbn [snd]. fold (u32 ch) in Hf.
+  unfold children_fuel. cbn [children_loop].
+  apply orb_prop in Hf. destruct Hf as [E|E].
+  - apply N.eqb_eq in E. rewrite E. rewrite (@nthN_parsed c l 0 (nslots_pos' Hv)). cbn [memN].
+    rewrite N.eqb_refl. cbn [orb]. rewrite children_loop_nil. reflexivity.
+  - apply N.leb_le in E. rewrite (@nthN_parsed_none c l _ E). rewrite children_loop_nil. reflexivity.
+Qed.
+
+Lemma find_entry_flat : forall ds path, children ds 0 = [] ->
+  find_entry ds path = match last_opt path with Some n => find_dir n ds | None => None end.
+Proof. intros ds path H. unfold find_entry. rewrite H. reflexivity. Qed.
+
+Lemma last_opt_snoc : forall (A : Type) (l : list A) x, last_opt (l ++ [x]) = Some x.
+Proof.
+  induction l as [|y l IH]; intros x; [reflexivity|].
+  cbn [app last_opt]. destruct (l ++ [x]) eqn:E; [destruct l; discriminate|]. rewrite <- E. apply IH.
+Qed.
+
+(* the general statement of the flat regime: the k-th stream is read back under its name (behind
+   ANY prefix: only the last name of the path counts) as soon as no object of the same name sits
+   in a lower directory slot *)
+Theorem get_stream_first : forall c l cf r, valid_layout c l -> flat_root c l -> written_cfb c l cf r ->
+  forall k n b s pre, nth_error (c_streams c) k = Some (n, b) -> stream_slot c l k = Some s ->
+  first_slot c l n = Some s ->
+  exists c' r', get_stream cf (pre ++ [n]) r = Ok (b, c', r').
+Proof.
+  intros c l cf r Hv Hfl Hw k n b s pre Hk Hs Hfirst.
+  destruct (@stream_item_at c l k n b s Hv Hk Hs) as [ch [Hch Hin]].
+  destruct (valid_dir Hv) as [_ [_ [_ [_ [Hval _]]]]].
+  pose proof (slot_table_names _ _ _ _ Hin) as Hn. cbn [stream_item item_name fst snd] in Hn.
+  destruct (@valid_name_not_special n (Hval _ Hn)) as [Hne Hnr].
+  pose proof (@find_dir_first c l n Hv Hne Hnr) as Hf. rewrite Hfirst in Hf.
+  pose proof Hw as (Hdirs & _).
+  destruct (entry_at_item _ _ Hv Hin) as [_ [Est Eln]]. cbn [stream_item fst snd] in Est, Eln.
+  apply (@get_stream_of_entry c l cf r Hv Hw (pre ++ [n]) n b ch (entry_at c l s) Hch); [|exact Est|exact Eln].
+  rewrite Hdirs, find_entry_flat by (apply children_root_flat; assumption).
+  rewrite last_opt_snoc. exact Hf.
+Qed.
+
+Theorem flat_layout_independent_first : forall c l fuel, valid_layout c l -> flat_root c l ->
+  (fuel_for l <= fuel)%nat ->
+  forall k n b s pre, nth_error (c_streams c) k = Some (n, b) -> stream_slot c l k = Some s ->
+  first_slot c l n = Some s ->
+  cfb_get_stream fuel (cfb_write c l) (pre ++ [n]) = Ok b.
+Proof.
+  intros c l fuel Hv Hfl Hfuel k n b s pre Hk Hs Hfirst. unfold cfb_get_stream.
+  destruct (cfb_new_written Hv Hfuel) as [cf [r [Hnew Hw]]]. rewrite Hnew. cbn [obind].
+  destruct (@get_stream_first c l cf r Hv Hfl Hw k n b s pre Hk Hs Hfirst) as [c' [r' Hg]]. rewrite Hg. reflexivity.
+Qed.
+
+(* a name carried by no object is not found *)
+Lemma get_stream_absent_flat : forall c l cf r n pre, valid_layout c l -> flat_root c l -> written_cfb c l cf r ->
+  n <> [] -> n <> ROOT_NAME -> first_slot c l n = None -> get_stream cf (pre ++ [n]) r = Err ERR_NOT_FOUND.
+Proof.
+  intros c l cf r n pre Hv Hfl (Hdirs & _) Hne Hnr Hnone. unfold get_stream.
+  rewrite Hdirs, find_entry_flat by (apply children_root_flat; assumption).
+  rewrite last_opt_snoc, (@find_dir_first c l n Hv Hne Hnr), Hnone. reflexivity.
+Qed.
+
+(* names distinct over the whole file: the only object of a name is in the lowest slot *)
+Lemma first_slot_unique : forall c l k n b s, valid_layout c l -> names_unique c ->
+  nth_error (c_streams c) k = Some (n, b) -> stream_slot c l k = Some s -> first_slot c l n = Some s.
+Proof.
+  intros c l k n b s Hv Hu Hk Hs.
+  destruct (@stream_item_at c l k n b s Hv Hk Hs) as [ch [Hch Hin]].
+  destruct (valid_dir Hv) as [_ [_ [_ [Hlc _]]]].
+  pose proof (names_unique_NoDup Hu) as Hndn.
+  unfold first_slot. destruct (min_slot n (slot_table c l)) as [s1|] eqn:E.
+  - destruct (min_slot_some _ _ E) as [[it [Hin1 Hn1]] _]. f_equal.
+    assert (it = stream_item l ((n, b), ch)).
+    { apply (NoDup_map_inj_on (fun it => fst (fst (fst it))) (items c l));
+        [rewrite (items_names_eq c l Hlc); exact Hndn| | |exact Hn1].
+      - unfold slot_table in Hin1. apply (in_combine_r _ _ _ _ Hin1).
+      - unfold slot_table in Hin. apply (in_combine_r _ _ _ _ Hin). }
+    subst it.
+    (* one item, two slots: the slots of the table are those of distinct positions *)
+    destruct (valid_dir Hv) as [Hnd [_ [Hls _]]].
+    assert (Hitems_nd : NoDup (items c l)).
+    { apply (NoDup_map_inv (fun it => fst (fst (fst it)))). rewrite (items_names_eq c l Hlc). exact Hndn. }
+    unfold slot_table in Hin1, Hin.
+    apply In_nth_error in Hin1. destruct Hin1 as [i1 Hi1]. apply In_nth_error in Hin. destruct Hin as [i2 Hi2].
+    assert (Hc1 : nth_error (items c l) i1 = Some (stream_item l (n, b, ch))).
+    { clear -Hi1. revert i1 Hi1. generalize (items c l). generalize (l_slots l).
+      induction l0 as [|x l0 IH]; intros [|y l1] [|i] H; cbn in *; try discriminate; [inversion H; reflexivity|apply (IH _ _ H)]. }
+    assert (Hc2 : nth_error (items c l) i2 = Some (stream_item l (n, b, ch))).
+    { clear -Hi2. revert i2 Hi2. generalize (items c l). generalize (l_slots l).
+      induction l0 as [|x l0 IH]; intros [|y l1] [|i] H; cbn in *; try discriminate; [inversion H; reflexivity|apply (IH _ _ H)]. }
+    assert (i1 = i2).
+    { apply (proj1 (NoDup_nth_error (items c l)) Hitems_nd); [apply nth_error_Some; rewrite Hc1; discriminate|congruence]. }
+    subst i2. rewrite Hi1 in Hi2. inversion Hi2. reflexivity.
+  - exfalso. apply (@min_slot_none _ _ E _ _ Hin). reflexivity.
+Qed.
+
+(* flat regime, names distinct over the whole file: every stream is read back *)
+Theorem flat_layout_independent : forall c l fuel, valid_layout c l -> flat_root c l -> names_unique c ->
+  (fuel_for l <= fuel)%nat ->
+  forall n b pre, In (n, b) (c_streams c) -> cfb_get_stream fuel (cfb_write c l) (pre ++ [n]) = Ok b.
+Proof.
+  intros c l fuel Hv Hfl Hu Hfuel n b pre Hin.
+  apply In_nth_error in Hin. destruct Hin as [k Hk].
+  destruct (stream_slot_exists _ Hv Hk) as [s Hs].
+  apply (@flat_layout_independent_first c l fuel Hv Hfl Hfuel k n b s pre Hk Hs).
+  apply (@first_slot_unique c l k n b s Hv Hu Hk Hs).
+Qed.
+
+(* ================================================================== Part 4d: the hierarchy *)
+(* ------------------------------------------------------------------ the loop of Cfb::children ends *)
+Definition unseen (ds : list dirent) (seen : list N) : nat :=
+  length (filter (fun i => negb (memN i seen)) (seqN (length ds))).
+
+Lemma filter_seen_le : forall (L : list N) id seen,
+  (length (filter (fun i => negb (memN i (id :: seen))) L) <= length (filter (fun i => negb (memN i seen)) L))%nat.
+Proof.
+  induction L as [|x L IH]; intros id seen; [cbn; lia|].
+  cbn [filter memN]. specialize (IH id seen). cbn [memN] in IH.
+  destruct (id =? x); cbn [orb negb]; destruct (memN x seen); cbn [negb length]; lia.
+Qed.
+
+Lemma filter_seen_lt : forall (L : list N) id seen, In id L -> memN id seen = false ->
+  (length (filter (fun i => negb (memN i (id :: seen))) L) < length (filter (fun i => negb (memN i seen)) L))%nat.
+Proof.
+  induction L as [|x L IH]; intros id seen Hin Hs; [destruct Hin|].
+  cbn [filter memN]. destruct Hin as [->|Hin].
+  - rewrite N.eqb_refl, Hs. cbn [orb negb length].
+    pose proof (filter_seen_le L id seen) as H. cbn [memN] in H. lia.
+  - specialize (IH id seen Hin Hs). cbn [memN] in IH.
+    destruct (id =? x); cbn [orb negb]; destruct (memN x seen); cbn [negb length]; lia.
+Qed.
+
+Lemma nthN_Some_lt : forall (A : Type) (l : list A) i d, nthN l i = Some d -> i < N.of_nat (length l).
+Proof.
+  intros A l i d H. rewrite nthN_nth_error in H.
+  assert (N.to_nat i < length l)%nat by (apply nth_error_Some; rewrite H; discriminate). lia.
+Qed.
+
+Lemma unseen_decr : forall ds seen id d, nthN ds id = Some d -> memN id seen = false ->
+  (unseen ds (id :: seen) < unseen ds seen)%nat.
+Proof.
+  intros ds seen id d Hd Hs. unfold unseen. apply filter_seen_lt; [|exact Hs].
+  unfold seqN. apply seqN_from_In. pose proof (nthN_Some_lt _ _ Hd). lia.
+Qed.
+
+(* fuel: one unit per pop; every entry pushes its two links at most once *)
+Lemma children_loop_fuel : forall fuel ds seen todo acc,
+  (length todo + 2 * unseen ds seen <= fuel)%nat ->
+  exists l, children_loop fuel ds seen todo acc = Ok l.
+Proof.
+  induction fuel as [|f IH]; intros ds seen todo acc Hf.
+  - destruct todo; [eexists; reflexivity|cbn [length] in Hf; lia].
+  - destruct todo as [|id rest]; [eexists; reflexivity|]. cbn [children_loop]. cbn [length] in Hf.
+    destruct (nthN ds id) as [d|] eqn:Ed.
+    + destruct (memN id seen) eqn:Es.
+      * apply IH. lia.
+      * apply IH. pose proof (unseen_decr ds seen _ Ed Es). cbn [length]. lia.
+    + apply IH. lia.
+Qed.
+
+Lemma filter_len_le : forall (A : Type) (f : A -> bool) l, (length (filter f l) <= length l)%nat.
+Proof. induction l as [|x l IH]; cbn [filter length]; [lia|]. destruct (f x); cbn [length]; lia. Qed.
+
+Lemma unseen_le : forall ds seen, (unseen ds seen <= length ds)%nat.
+Proof.
+  intros ds seen. unfold unseen.
+  pose proof (filter_len_le (fun i => negb (memN i seen)) (seqN (length ds))) as H.
+  rewrite seqN_length in H. exact H.
+Qed.
+
+(* the fuel Cfb.children supplies is never exhausted: the default branch of its match is dead *)
+Theorem children_fuel_suffices : forall ds seen ch,
+  exists l, children_loop (children_fuel ds) ds seen [ch] [] = Ok l.
+Proof.
+  intros ds seen ch. apply children_loop_fuel. unfold children_fuel. cbn [length].
+  pose proof (unseen_le ds seen). lia.
+Qed.
+
+(* ------------------------------------------------------------------ the sibling tree, two walks *)
+(* the directory array agrees with a link function on the entries of the array, and NOSTREAM is
+   no entry of it *)
+Definition links_agree (ds : list dirent) (lk : N -> N * N * N) (nsl : N) : Prop :=
+  nsl <= FREESECT /\
+  (forall i, i < nsl -> exists d, nthN ds i = Some d /\ d_left d = fst (fst (lk i)) /\ d_right d = snd (fst (lk i))) /\
+  (forall i, nsl <= i -> nthN ds i = None).
+
+(* the in-order walk of the specification (tree_walk) and the stack walk of Cfb::children visit
+   the same entries: a sibling tree of m entries costs 2m+1 pops *)
+Lemma walk_dfs : forall ds lk nsl, links_agree ds lk nsl ->
+  forall f s bd vis bd', tree_walk f lk nsl s bd = Some (vis, bd') ->
+  forall k seen rest acc, NoDup vis -> (forall x, In x vis -> ~ In x seen) ->
+  exists pre, (forall x, In x pre <-> In x vis) /\ length pre = length vis /\
+    children_loop (k + (2 * length vis + 1)) ds seen (s :: rest) acc
+    = children_loop k ds (rev pre ++ seen) rest (rev pre ++ acc).
+Proof.
+  intros ds lk nsl (Hfree & Hin & Hout). induction f as [|f IH]; intros s bd vis bd' Hw k seen rest acc Hnd Hdis.
+  - cbn [tree_walk] in Hw. destruct (s =? FREESECT) eqn:E; [|discriminate].
+    inversion Hw; subst. apply N.eqb_eq in E. subst s. exists []. split; [tauto|]. split; [reflexivity|].
+    cbn [length]. replace (k + (2 * 0 + 1))%nat with (S k) by lia. cbn [children_loop].
+    rewrite (Hout FREESECT Hfree). reflexivity.
+  - cbn [tree_walk] in Hw. destruct (s =? FREESECT) eqn:E.
+    + inversion Hw; subst. apply N.eqb_eq in E. subst s. exists []. split; [tauto|]. split; [reflexivity|].
+      cbn [length]. replace (k + (2 * 0 + 1))%nat with (S k) by lia. cbn [children_loop].
+      rewrite (Hout FREESECT Hfree). reflexivity.
+    + destruct bd as [|bd0]; [discriminate|].
+      destruct (nsl <=? s) eqn:Ens; [discriminate|]. apply N.leb_gt in Ens.
+      destruct (lk s) as [[lft rgt] chd] eqn:Elk.
+      destruct (tree_walk f lk nsl lft bd0) as [[a bd1]|] eqn:Ea; [|discriminate].
+      destruct (tree_walk f lk nsl rgt bd1) as [[b bd2]|] eqn:Eb; [|discriminate].
+      inversion Hw; subst vis bd'. clear Hw.
+      destruct (Hin s Ens) as [d [Hd [Hl Hr]]]. rewrite Elk in Hl, Hr. cbn [fst snd] in Hl, Hr.
+      assert (Hs_seen : memN s seen = false).
+      { apply memN_false. apply Hdis. apply in_or_app. right. left. reflexivity. }
+      apply NoDup_remove in Hnd. destruct Hnd as [Hnd_ab Hs_ab].
+      destruct (nodup_app_inv _ _ Hnd_ab) as [Hnd_a [Hnd_b Hab]].
+      (* left subtree *)
+      destruct (IH lft bd0 a bd1 Ea (k + (2 * length b + 1))%nat (s :: seen) (rgt :: rest) (s :: acc) Hnd_a)
+        as [pa [Hpa [Hla Ela]]].
+      { intros x Hx [Hc|Hc]; [subst x; apply Hs_ab; apply in_or_app; left; exact Hx|].
+        apply (Hdis x); [apply in_or_app; left; exact Hx|exact Hc]. }
+      (* right subtree *)
+      destruct (IH rgt bd1 b bd2 Eb k (rev pa ++ s :: seen) rest (rev pa ++ s :: acc) Hnd_b)
+        as [pb [Hpb [Hlb Elb]]].
+      { intros x Hx Hc. apply in_app_or in Hc. destruct Hc as [Hc|[Hc|Hc]].
+        - apply in_rev in Hc. apply Hpa in Hc. apply (Hab x Hc Hx).
+        - subst x. apply Hs_ab. apply in_or_app. right. exact Hx.
+        - apply (Hdis x); [apply in_or_app; right; right; exact Hx|exact Hc]. }
+      exists (s :: pa ++ pb). split; [|split].
+      * intros x. cbn [In]. rewrite !in_app_iff. cbn [In]. rewrite Hpa, Hpb. tauto.
+      * cbn [length]. rewrite !app_length. cbn [length]. lia.
+      * rewrite app_length. cbn [length].
+        replace (k + (2 * (length a + S (length b)) + 1))%nat
+          with (S ((k + (2 * length b + 1)) + (2 * length a + 1)))%nat by lia.
+        cbn [children_loop]. rewrite Hd, Hs_seen, Hl, Hr. rewrite Ela, Elb.
+        cbn [rev]. rewrite rev_app_distr, <- !app_assoc. cbn [app]. reflexivity.
+Qed.
+
+(* ------------------------------------------------------------------ links that are a tree *)
+Definition linked_tree (c : container) (l : layout) : Prop := linked_treeb c l = true.
+Definition legal_tree (c : container) (l : layout) : Prop := legal_treeb c l = true.
+
+Lemma forallb_impl : forall (A : Type) (f g : A -> bool) l,
+  (forall x, f x = true -> g x = true) -> forallb f l = true -> forallb g l = true.
+Proof.
+  intros A f g l H Hf. apply forallb_forall. intros x Hx. apply H. apply (forallb_In _ _ Hf _ Hx).
+Qed.
+
+(* a legal MS-CFB tree is a tree (the order of the siblings is not used by the reader) *)
+Lemma legal_linked : forall c l, legal_tree c l -> linked_tree c l.
+Proof.
+  intros c l H. unfold legal_tree, legal_treeb, linked_tree, linked_treeb, tree_okb in *.
+  apply andb_prop in H. destruct H as [H H3]. apply andb_true_intro. split; [exact H|].
+  revert H3. apply forallb_impl. intros p Hp.
+  destruct (link_of (link_table l) (storage_slot l p)) as [[a b] ch].
+  destruct (tree_walk _ _ _ ch _) as [[vis bd]|]; [|discriminate].
+  apply andb_prop in Hp. destruct Hp as [Hp _]. rewrite Hp. reflexivity.
+Qed.
+
+Section Tree.
+Variables (c : container) (l : layout).
+Hypothesis Hv : valid_layout c l.
+Hypothesis Ht : linked_tree c l.
+
+Let lk := link_of (link_table l).
+Let nsl := N.of_nat (nslots c l).
+Let nst := length (c_storages c).
+
+Lemma tree_nsl : nsl <= FREESECT.
+Proof.
+  unfold linked_tree, linked_treeb, tree_okb in Ht. apply andb_prop in Ht. destruct Ht as [H _].
+  apply andb_prop in H. destruct H as [H _]. apply andb_prop in H. destruct H as [H _].
+  apply N.leb_le in H. exact H.
+Qed.
+
+Lemma tree_links_u32 : forall t, In t (l_links l) -> link_u32b t = true.
+Proof.
+  unfold linked_tree, linked_treeb, tree_okb in Ht. apply andb_prop in Ht. destruct Ht as [H _].
+  apply andb_prop in H. destruct H as [H _]. apply andb_prop in H. destruct H as [_ H].
+  intros t Hin. apply (forallb_In _ _ H _ Hin).
+Qed.
+
+Lemma tree_stream_child : forall s, In s (skipn nst (l_slots l)) -> snd (lk s) = FREESECT.
+Proof.
+  unfold linked_tree, linked_treeb, tree_okb in Ht. apply andb_prop in Ht. destruct Ht as [H _].
+  apply andb_prop in H. destruct H as [_ H].
+  intros s Hin. pose proof (forallb_In _ _ H _ Hin) as Hs. cbn beta in Hs. unfold lk.
+  destruct (link_of (link_table l) s) as [[a b] ch]. cbn [snd]. apply N.eqb_eq. exact Hs.
+Qed.
+
+Lemma tree_storage_walk : forall p, p <= N.of_nat nst ->
+  exists vis bd, tree_walk (S (length (children_slots c l p))) lk nsl (snd (lk (storage_slot l p)))
+                   (S (length (children_slots c l p))) = Some (vis, bd) /\
+    length vis = length (children_slots c l p) /\ NoDup vis /\
+    (forall s, In s (children_slots c l p) -> In s vis).
+Proof.
+  unfold linked_tree, linked_treeb, tree_okb in Ht. apply andb_prop in Ht. destruct Ht as [_ H].
+  intros p Hp.
+  assert (Hin : In p (seqN (S nst))) by (unfold seqN; apply seqN_from_In; lia).
+  pose proof (forallb_In _ _ H _ Hin) as Hs. cbn beta in Hs. unfold lk, nsl.
+  destruct (link_of (link_table l) (storage_slot l p)) as [[a b] ch]. cbn [snd].
+  destruct (tree_walk _ _ _ ch _) as [[vis bd]|]; [|discriminate].
+  exists vis, bd. split; [reflexivity|].
+  cbn [negb orb] in Hs. rewrite andb_true_r in Hs.
+  apply andb_prop in Hs. destruct Hs as [Hs H3]. apply andb_prop in Hs. destruct Hs as [H1 H2].
+  split; [apply Nat.eqb_eq; exact H1|]. split; [apply nodupb_NoDup; exact H2|].
+  intros s Hs. apply memN_In. apply (forallb_In _ _ H3 _ Hs).
+Qed.
+
+(* the link fields of the parsed entries are the links of the layout *)
+Lemma link_of_u32 : forall i, link_u32b (lk i) = true.
+Proof.
+  intros i. unfold lk, link_of. destruct (assocN i (link_table l)) as [t|] eqn:E; [|reflexivity].
+  apply assocN_Some_In in E. unfold link_table in E. apply in_combine_r in E.
+  apply tree_links_u32. exact E.
+Qed.
+
+Lemma u32_small : forall x, x < 4294967296 -> u32 x = x.
+Proof. intros x H. unfold u32. apply N.mod_small. exact H. Qed.
+
+Lemma entry_links : forall i,
+  d_left (entry_at c l i) = fst (fst (lk i)) /\ d_right (entry_at c l i) = snd (fst (lk i)) /\
+  d_child (entry_at c l i) = snd (lk i).
+Proof.
+  intros i. pose proof (link_of_u32 i) as H. unfold entry_at, dirent_of. cbn [d_left d_right d_child].
+  fold lk. destruct (lk i) as [[a b] ch]. cbn [fst snd]. unfold link_u32b in H.
+  apply andb_prop in H. destruct H as [H H3]. apply andb_prop in H. destruct H as [H1 H2].
+  apply N.ltb_lt in H1, H2, H3. rewrite !u32_small by assumption. repeat split.
+Qed.
+
+Lemma parsed_links_agree : links_agree (parsed_dirs c l) lk nsl.
+Proof.
+  split; [exact tree_nsl|]. split.
+  - intros i Hi. exists (entry_at c l i). split; [apply nthN_parsed; exact Hi|].
+    destruct (entry_links i) as [H1 [H2 _]]. split; assumption.
+  - intros i Hi. apply nthN_parsed_none. exact Hi.
+Qed.
+
+(* children of an entry whose child link opens a sibling tree that tree_walk accepts *)
+Lemma children_of_walk : forall s f bd vis bd', s < nsl ->
+  tree_walk f lk nsl (snd (lk s)) bd = Some (vis, bd') -> NoDup vis -> ~ In 0 vis ->
+  exists pre, (forall x, In x pre <-> In x vis) /\ children (parsed_dirs c l) s = pre.
+Proof.
+  intros s f bd vis bd' Hs Hw Hnd H0. unfold children.
+  rewrite (@nthN_parsed c l s Hs). destruct (entry_links s) as [_ [_ Hch]]. rewrite Hch.
+  assert (Hlen : (length vis <= length (parsed_dirs c l))%nat).
+  { assert (Hb : forall x, In x vis -> x < nsl).
+    { clear -Hw. revert bd vis bd' Hw. generalize (snd (lk s)) as t. induction f as [|f IH]; intros t bd vis bd' Hw.
+      - cbn [tree_walk] in Hw. destruct (t =? FREESECT); [inversion Hw; intros x []|discriminate].
+      - cbn [tree_walk] in Hw. destruct (t =? FREESECT); [inversion Hw; intros x []|].
+        destruct bd as [|bd0]; [discriminate|]. destruct (nsl <=? t) eqn:E; [discriminate|]. apply N.leb_gt in E.
+        destruct (lk t) as [[lft rgt] chd].
+        destruct (tree_walk f lk nsl lft bd0) as [[a bd1]|] eqn:Ea; [|discriminate].
+        destruct (tree_walk f lk nsl rgt bd1) as [[b bd2]|] eqn:Eb; [|discriminate].
+        inversion Hw; subst. intros x Hx. apply in_app_or in Hx. destruct Hx as [Hx|[Hx|Hx]].
+        + apply (IH _ _ _ _ Ea x Hx).
+        + subst x. exact E.
+        + apply (IH _ _ _ _ Eb x Hx). }
+    pose proof (nodup_bound Hnd Hb) as Hnb. rewrite parsed_dirs_length. unfold nsl in Hnb. lia. }
+  destruct (@walk_dfs (parsed_dirs c l) lk nsl parsed_links_agree f (snd (lk s)) bd vis bd' Hw
+              (2 * (length (parsed_dirs c l) - length vis))%nat [0] [] [] Hnd) as [pre [Hpre [Hl E]]].
+  { intros x Hx [Hc|[]]. subst x. exact (H0 Hx). }
+  exists pre. split; [exact Hpre|].
+  unfold children_fuel.
+  replace (S (2 * length (parsed_dirs c l)))
+    with (2 * (length (parsed_dirs c l) - length vis) + (2 * length vis + 1))%nat by lia.
+  rewrite E. rewrite children_loop_nil. rewrite app_nil_r, rev_involutive. reflexivity.
+Qed.
+
+End Tree.
+
+(* ------------------------------------------------------------------ objects, slots, hierarchy *)
+Lemma mem_key_In : forall x l, mem_key x l = true <-> In x l.
+Proof.
+  intros [xp xn]. induction l as [|[yp yn] r IH]; cbn [mem_key In fst snd]; [split; [discriminate|tauto]|].
+  rewrite orb_true_iff, andb_true_iff, N.eqb_eq, list_eqb_eq, IH. split.
+  - intros [[-> ->]|H]; [left; reflexivity|right; exact H].
+  - intros [H|H]; [inversion H; left; split; reflexivity|right; exact H].
+Qed.
+
+Lemma nodup_keyb_NoDup : forall l, nodup_keyb l = true -> NoDup l.
+Proof.
+  induction l as [|x r IH]; intros H; [constructor|]. cbn [nodup_keyb] in H.
+  apply andb_prop in H. destruct H as [H1 H2]. constructor; [|apply IH; exact H2].
+  intros Hin. apply mem_key_In in Hin. rewrite Hin in H1. discriminate.
+Qed.
+
+Lemma hier_facts : forall c, hier_okb c = true ->
+  (forall k, parent_of c k <= N.of_nat (length (c_storages c))) /\
+  (forall j, (j < length (c_storages c))%nat -> parent_of c j <= N.of_nat j) /\
+  (forall k k', (k < length (all_names c))%nat -> (k' < length (all_names c))%nat ->
+     parent_of c k = parent_of c k' -> nth_error (all_names c) k = nth_error (all_names c) k' -> k = k').
+Proof.
+  intros c H. unfold hier_okb in H. apply andb_prop in H. destruct H as [H H3].
+  apply andb_prop in H. destruct H as [H1 H2]. split; [|split].
+  - intros k. unfold parent_of. destruct (nth_in_or_default k (c_parents c) 0) as [Hin|E]; [|rewrite E; lia].
+    apply N.leb_le. apply (forallb_In _ _ H1 _ Hin).
+  - intros j Hj. apply N.leb_le. apply (forallb_In _ _ H2 j). apply in_seq. lia.
+  - intros k k' Hk Hk' Hp Hn. apply nodup_keyb_NoDup in H3. unfold item_keys in H3.
+    set (ps := map (parent_of c) (seq 0 (length (all_names c)))) in *.
+    assert (Hlen : length ps = length (all_names c)) by (unfold ps; rewrite map_length, seq_length; reflexivity).
+    assert (Hps : forall i, (i < length (all_names c))%nat -> nth_error ps i = Some (parent_of c i)).
+    { intros i Hi. unfold ps. rewrite (map_nth_error (parent_of c) i (seq 0 (length (all_names c))) (d := i)); [reflexivity|].
+      rewrite nth_error_nth' with (d := O) by (rewrite seq_length; exact Hi). rewrite seq_nth by exact Hi. reflexivity. }
+    destruct (nth_error (all_names c) k) as [n|] eqn:En; [|apply nth_error_None in En; lia].
+    symmetry in Hn.
+    apply (proj1 (NoDup_nth_error (combine ps (all_names c))) H3).
+    + rewrite combine_length, Hlen. lia.
+    + rewrite (nth_error_combine _ _ k (Hps k Hk) En), (nth_error_combine _ _ k' (Hps k' Hk') Hn), Hp. reflexivity.
+Qed.
+
+Lemma child_index_some : forall c p n names k0 k, child_index c p n k0 names = Some k ->
+  (k0 <= k)%nat /\ nth_error names (k - k0) = Some n /\ parent_of c k = p.
+Proof.
+  intros c p n. induction names as [|n' r IH]; intros k0 k H; [discriminate|]. cbn [child_index] in H.
+  destruct (list_eqb n' n && (parent_of c k0 =? p)) eqn:E.
+  - inversion H; subst k. apply andb_prop in E. destruct E as [E1 E2]. apply list_eqb_eq in E1. apply N.eqb_eq in E2.
+    subst n'. rewrite Nat.sub_diag. split; [lia|split; [reflexivity|exact E2]].
+  - destruct (IH _ _ H) as [H1 [H2 H3]]. split; [lia|split; [|exact H3]].
+    replace (k - k0)%nat with (S (k - S k0)) by lia. exact H2.
+Qed.
+
+Lemma child_index_none : forall c p n names k0, child_index c p n k0 names = None ->
+  forall j, nth_error names j = Some n -> parent_of c (k0 + j) <> p.
+Proof.
+  intros c p n. induction names as [|n' r IH]; intros k0 H j Hj; [destruct j; discriminate|]. cbn [child_index] in H.
+  destruct (list_eqb n' n && (parent_of c k0 =? p)) eqn:E; [discriminate|].
+  destruct j as [|j].
+  - cbn [nth_error] in Hj. inversion Hj; subst n'. rewrite list_eqb_refl in E. cbn [andb] in E.
+    apply N.eqb_neq in E. rewrite Nat.add_0_r. exact E.
+  - cbn [nth_error] in Hj. replace (k0 + S j)%nat with (S k0 + j)%nat by lia. apply (IH _ H _ Hj).
+Qed.
+
+Section Objects.
+Variables (c : container) (l : layout).
+Hypothesis Hv : valid_layout c l.
+
+Let nst := length (c_storages c).
+Let nobj := length (l_slots l).
+
+Lemma nobj_names : length (all_names c) = nobj.
+Proof.
+  destruct (valid_dir Hv) as [_ [_ [Hls _]]]. unfold nobj, all_names. rewrite app_length, map_length. lia.
+Qed.
+
+Lemma obj_slot_S : forall k, obj_slot l (N.of_nat (S k)) = nth k (l_slots l) 0.
+Proof.
+  intros k. unfold obj_slot. replace (N.of_nat (S k) =? 0) with false by (symmetry; apply N.eqb_neq; lia).
+  replace (N.to_nat (N.of_nat (S k)) - 1)%nat with k by lia. reflexivity.
+Qed.
+
+(* the k-th object: its slot holds an item carrying its name *)
+Lemma object_in_table : forall k, (k < nobj)%nat ->
+  exists it, In (nth k (l_slots l) 0, it) (slot_table c l) /\ nth_error (all_names c) k = Some (item_name it).
+Proof.
+  intros k Hk. destruct (valid_dir Hv) as [_ [_ [Hls [Hlc _]]]].
+  assert (Hil : length (items c l) = nobj) by (rewrite (items_length c l Hlc); unfold nobj; lia).
+  destruct (nth_error (items c l) k) as [it|] eqn:Ei; [|apply nth_error_None in Ei; lia].
+  exists it. split.
+  - apply (nth_error_In (slot_table c l) k). unfold slot_table. apply nth_error_combine; [|exact Ei].
+    apply nth_error_nth'. exact Hk.
+  - rewrite <- (items_names_eq c l Hlc). apply (map_nth_error (fun it => fst (fst (fst it))) k _ Ei).
+Qed.
+
+Lemma object_slot_range : forall k, (k < nobj)%nat -> 1 <= nth k (l_slots l) 0 < N.of_nat (nslots c l).
+Proof.
+  intros k Hk. destruct (valid_dir Hv) as [_ [Hr _]]. apply Hr. apply nth_In. exact Hk.
+Qed.
+
+Lemma object_entry_name : forall k, (k < nobj)%nat ->
+  nth_error (all_names c) k = Some (d_name (entry_at c l (nth k (l_slots l) 0))).
+Proof.
+  intros k Hk. destruct (object_in_table Hk) as [it [Hin Hn]].
+  destruct (entry_at_item _ _ Hv Hin) as [En _]. rewrite En. exact Hn.
+Qed.
+
+Lemma children_slots_In : forall p s, In s (children_slots c l p) <->
+  exists k, (k < nobj)%nat /\ nth k (l_slots l) 0 = s /\ parent_of c k = p.
+Proof.
+  intros p s. unfold children_slots. fold nobj. rewrite in_map_iff. split.
+  - intros [[s' q] [E Hin]]. cbn [fst] in E. subst s'. apply filter_In in Hin. destruct Hin as [Hin Hq].
+    cbn [snd] in Hq. apply N.eqb_eq in Hq. subst q.
+    apply In_nth_error in Hin. destruct Hin as [k Hk].
+    assert (Hlt : (k < nobj)%nat).
+    { assert (H : (k < length (combine (l_slots l) (map (parent_of c) (seq 0 nobj))))%nat)
+        by (apply nth_error_Some; rewrite Hk; discriminate).
+      rewrite combine_length in H. unfold nobj. lia. }
+    exists k. split; [exact Hlt|].
+    assert (H1 : nth_error (l_slots l) k = Some (nth k (l_slots l) 0)) by (apply nth_error_nth'; exact Hlt).
+    assert (H2 : nth_error (map (parent_of c) (seq 0 nobj)) k = Some (parent_of c k)).
+    { rewrite (map_nth_error (parent_of c) k (seq 0 nobj) (d := k)); [reflexivity|].
+      rewrite nth_error_nth' with (d := O) by (rewrite seq_length; exact Hlt). rewrite seq_nth by exact Hlt. reflexivity. }
+    rewrite (nth_error_combine _ _ k H1 H2) in Hk. inversion Hk. split; reflexivity.
+  - intros [k [Hk [Hs Hp]]]. exists (s, p). split; [reflexivity|]. apply filter_In. split; [|cbn [snd]; apply N.eqb_refl].
+    apply (nth_error_In _ k). apply nth_error_combine.
+    + rewrite <- Hs. apply nth_error_nth'. exact Hk.
+    + rewrite (map_nth_error (parent_of c) k (seq 0 nobj) (d := k)); [rewrite Hp; reflexivity|].
+      rewrite nth_error_nth' with (d := O) by (rewrite seq_length; exact Hk). rewrite seq_nth by exact Hk. reflexivity.
+Qed.
+
+Lemma slots_inj : forall k k', (k < nobj)%nat -> (k' < nobj)%nat ->
+  nth k (l_slots l) 0 = nth k' (l_slots l) 0 -> k = k'.
+Proof.
+  intros k k' Hk Hk' E. destruct (valid_dir Hv) as [Hnd _].
+  apply (proj1 (NoDup_nth (l_slots l) 0) Hnd); assumption.
+Qed.
+
+End Objects.
+
+Lemma nodup_map_fst_filter_combine : forall (B : Type) (f : N * B -> bool) (a : list N) (b : list B),
+  NoDup a -> NoDup (map fst (filter f (combine a b))).
+Proof.
+  intros B f. induction a as [|x a IH]; intros b Hnd; [constructor|]. destruct b as [|y b]; [constructor|].
+  inversion Hnd as [|? ? Hx Ha]; subst. cbn [combine filter].
+  assert (Hsub : forall z, In z (map fst (filter f (combine a b))) -> In z a).
+  { intros z Hz. apply in_map_iff in Hz. destruct Hz as [[z' w] [E Hz]]. cbn [fst] in E. subst z'.
+    apply filter_In in Hz. apply (in_combine_l _ _ _ _ (proj1 Hz)). }
+  destruct (f (x, y)); [|apply IH; exact Ha]. cbn [map fst]. constructor; [|apply IH; exact Ha].
+  intros Hc. apply Hx. apply Hsub. exact Hc.
+Qed.
+
+Lemma find_unique : forall (A : Type) (f : A -> bool) l x, In x l -> f x = true ->
+  (forall y, In y l -> f y = true -> y = x) -> find f l = Some x.
+Proof.
+  intros A f l x Hin Hx Hu. destruct (find f l) as [y|] eqn:E.
+  - apply find_some in E. f_equal. apply Hu; tauto.
+  - rewrite (find_none _ _ E _ Hin) in Hx. discriminate.
+Qed.
+
+Lemma find_all_false : forall (A : Type) (f : A -> bool) l, (forall y, In y l -> f y = false) -> find f l = None.
+Proof.
+  intros A f l H. destruct (find f l) as [y|] eqn:E; [|reflexivity].
+  apply find_some in E. rewrite (H y (proj1 E)) in E. destruct E; discriminate.
+Qed.
+
+Lemma nth_in_skipn : forall (A : Type) (l : list A) n k d, (n <= k < length l)%nat -> In (nth k l d) (skipn n l).
+Proof.
+  induction l as [|x l IH]; intros n k d H; [simpl in H; lia|].
+  destruct n as [|n]; [cbn [skipn]; apply nth_In; lia|]. destruct k as [|k]; [lia|].
+  simpl in H. cbn [skipn nth]. apply IH. lia.
+Qed.
+
+Section Lookup.
+Variables (c : container) (l : layout).
+Hypothesis Hv : valid_layout c l.
+Hypothesis Ht : linked_tree c l.
+
+Let nst := length (c_storages c).
+Let nobj := length (l_slots l).
+Let dirs := parsed_dirs c l.
+Let nsl := N.of_nat (nslots c l).
+
+Lemma nobj_split : nobj = (nst + length (c_streams c))%nat.
+Proof. destruct (valid_dir Hv) as [_ [_ [Hls _]]]. exact Hls. Qed.
+
+Lemma kids_nodup : forall p, NoDup (children_slots c l p).
+Proof.
+  intros p. unfold children_slots. apply nodup_map_fst_filter_combine. exact (proj1 (valid_dir Hv)).
+Qed.
+
+Lemma kids_ge1 : forall p s, In s (children_slots c l p) -> 1 <= s < nsl.
+Proof.
+  intros p s Hs. apply children_slots_In in Hs. destruct Hs as [k [Hk [<- _]]].
+  apply (object_slot_range Hv). exact Hk.
+Qed.
+
+Lemma obj_slot_lt : forall p, p <= N.of_nat nobj -> obj_slot l p < nsl.
+Proof.
+  intros p Hp. unfold obj_slot. destruct (p =? 0) eqn:E; [apply (nslots_pos' Hv)|]. apply N.eqb_neq in E.
+  apply (object_slot_range Hv). unfold nobj in Hp. lia.
+Qed.
+
+(* the children Cfb::children collects for the root entry or a storage: exactly the slots of
+   the objects the container puts into that storage, each once (in the order of the stack walk) *)
+Lemma children_of_object : forall p, p <= N.of_nat nst ->
+  forall x, In x (children dirs (obj_slot l p)) <-> In x (children_slots c l p).
+Proof.
+  intros p Hp. destruct (tree_storage_walk Ht Hp) as [vis [bd [Hw [Hlen [Hnd Hsub]]]]].
+  assert (Hback : incl vis (children_slots c l p)).
+  { apply NoDup_length_incl; [apply kids_nodup|lia|exact Hsub]. }
+  assert (H0 : ~ In 0 vis).
+  { intros H0. apply Hback in H0. apply kids_ge1 in H0. lia. }
+  assert (Hs : obj_slot l p < N.of_nat (nslots c l)) by (apply obj_slot_lt; rewrite nobj_split; lia).
+  destruct (@children_of_walk c l Ht (obj_slot l p) _ _ vis bd Hs Hw Hnd H0) as [pre [Hpre E]].
+  unfold dirs. rewrite E. intros x. rewrite Hpre. split; [apply Hback|apply Hsub].
+Qed.
+
+Lemma children_of_stream : forall p, N.of_nat nst < p <= N.of_nat nobj -> children dirs (obj_slot l p) = [].
+Proof.
+  intros p Hp. assert (Hs : obj_slot l p < N.of_nat (nslots c l)) by (apply obj_slot_lt; lia).
+  unfold children, dirs. rewrite (@nthN_parsed c l _ Hs).
+  destruct (entry_links Ht (obj_slot l p)) as [_ [_ Hch]]. rewrite Hch.
+  rewrite (@tree_stream_child c l Ht).
+  - unfold children_fuel. cbn [children_loop].
+    rewrite (@nthN_parsed_none c l FREESECT (tree_nsl Ht)). rewrite children_loop_nil. reflexivity.
+  - unfold obj_slot. replace (p =? 0) with false by (symmetry; apply N.eqb_neq; lia).
+    apply nth_in_skipn. unfold nobj in Hp. lia.
+Qed.
+
+Lemma name_is_slot : forall k n, (k < nobj)%nat ->
+  name_is dirs n (nth k (l_slots l) 0) = true <-> nth_error (all_names c) k = Some n.
+Proof.
+  intros k n Hk. unfold name_is, dirs.
+  rewrite (@nthN_parsed c l _ (proj2 (object_slot_range Hv Hk))).
+  rewrite (object_entry_name Hv Hk). rewrite list_eqb_eq. split; [intros ->; reflexivity|intros H; inversion H; reflexivity].
+Qed.
+
+(* one step of Cfb::find: the entry of that name among the children of object p *)
+Lemma find_child : forall p n, p <= N.of_nat nobj ->
+  find (name_is dirs n) (children dirs (obj_slot l p))
+  = option_map (fun k => obj_slot l (N.of_nat (S k))) (child_index c p n 0 (all_names c)).
+Proof.
+  intros p n Hp. destruct (valid_dir Hv) as [_ [_ [_ [_ [_ Hh]]]]].
+  destruct (hier_facts _ Hh) as [Hpar [_ Hkey]]. pose proof (nobj_names Hv) as Hnn.
+  destruct (N.le_gt_cases p (N.of_nat nst)) as [Hst|Hst].
+  - pose proof (children_of_object Hst) as Hkids.
+    destruct (child_index c p n 0 (all_names c)) as [k|] eqn:Ec; cbn [option_map].
+    + destruct (@child_index_some _ _ _ _ _ _ Ec) as [_ [Hn Hpk]]. rewrite Nat.sub_0_r in Hn.
+      assert (Hk : (k < nobj)%nat) by (unfold nobj; rewrite <- Hnn; apply nth_error_Some; rewrite Hn; discriminate).
+      rewrite (obj_slot_S c). apply find_unique.
+      * apply Hkids. apply children_slots_In. exists k. repeat split; assumption.
+      * apply (name_is_slot n Hk). exact Hn.
+      * intros y Hy Hny. apply Hkids in Hy. apply children_slots_In in Hy. destruct Hy as [k' [Hk' [<- Hp']]].
+        apply (name_is_slot n Hk') in Hny. f_equal. apply Hkey; try (rewrite Hnn; assumption); congruence.
+    + apply find_all_false. intros y Hy. apply Hkids in Hy. apply children_slots_In in Hy.
+      destruct Hy as [k' [Hk' [<- Hp']]]. destruct (name_is dirs n (nth k' (l_slots l) 0)) eqn:E; [|reflexivity].
+      apply (name_is_slot n Hk') in E. exfalso. apply (@child_index_none _ _ _ _ _ Ec k' E). exact Hp'.
+  - rewrite children_of_stream by lia. cbn [find].
+    destruct (child_index c p n 0 (all_names c)) as [k|] eqn:Ec; [|reflexivity].
+    destruct (@child_index_some _ _ _ _ _ _ Ec) as [_ [_ Hpk]]. pose proof (Hpar k). unfold nst in Hst. lia.
+Qed.
+
+Lemma resolve_le : forall path p q, p <= N.of_nat nobj -> resolve c p path = Some q -> q <= N.of_nat nobj.
+Proof.
+  pose proof (nobj_names Hv) as Hnn.
+  induction path as [|n rest IH]; intros p q Hp H; cbn [resolve] in H; [inversion H; subst; exact Hp|].
+  destruct (child_index c p n 0 (all_names c)) as [k|] eqn:Ec; [|discriminate].
+  destruct (@child_index_some _ _ _ _ _ _ Ec) as [_ [Hn _]]. rewrite Nat.sub_0_r in Hn.
+  assert (Hk : (k < nobj)%nat) by (unfold nobj; rewrite <- Hnn; apply nth_error_Some; rewrite Hn; discriminate).
+  apply (IH (N.of_nat (S k)) q); [lia|exact H].
+Qed.
+
+(* the object a non-empty path ends on carries the last name of the path *)
+Lemma resolve_last : forall path p q, path <> [] -> resolve c p path = Some q ->
+  exists k, q = N.of_nat (S k) /\ (k < nobj)%nat /\ nth_error (all_names c) k = last_opt path.
+Proof.
+  pose proof (nobj_names Hv) as Hnn.
+  induction path as [|n rest IH]; intros p q Hne H; [contradiction|]. cbn [resolve] in H.
+  destruct (child_index c p n 0 (all_names c)) as [k|] eqn:Ec; [|discriminate].
+  destruct (@child_index_some _ _ _ _ _ _ Ec) as [_ [Hn _]]. rewrite Nat.sub_0_r in Hn.
+  assert (Hk : (k < nobj)%nat) by (unfold nobj; rewrite <- Hnn; apply nth_error_Some; rewrite Hn; discriminate).
+  destruct rest as [|n2 rest2].
+  - cbn [resolve] in H. inversion H; subst q. exists k. repeat split; assumption.
+  - destruct (IH _ _ ltac:(discriminate) H) as [k2 [E [Hk2 Hl]]]. exists k2. repeat split; assumption.
+Qed.
+
+(* the loop of Cfb::find from the entry of any object: the lookup of the specification *)
+Lemma find_from_resolve : forall path p, p <= N.of_nat nobj ->
+  find_from dirs (obj_slot l p) path = option_map (obj_slot l) (resolve c p path).
+Proof.
+  pose proof (nobj_names Hv) as Hnn.
+  induction path as [|n rest IH]; intros p Hp; [reflexivity|]. cbn [find_from resolve].
+  rewrite (find_child n Hp). destruct (child_index c p n 0 (all_names c)) as [k|] eqn:Ec; cbn [option_map]; [|reflexivity].
+  destruct (@child_index_some _ _ _ _ _ _ Ec) as [_ [Hn _]]. rewrite Nat.sub_0_r in Hn.
+  assert (Hk : (k < nobj)%nat) by (unfold nobj; rewrite <- Hnn; apply nth_error_Some; rewrite Hn; discriminate).
+  apply IH. lia.
+Qed.
+
+Lemma root_has_child : (0 < nobj)%nat -> In (nth 0 (l_slots l) 0) (children_slots c l 0).
+Proof.
+  intros H. destruct (valid_dir Hv) as [_ [_ [_ [_ [_ Hh]]]]]. destruct (hier_facts _ Hh) as [Hpar [Hst _]].
+  apply children_slots_In. exists O. split; [exact H|]. split; [reflexivity|].
+  destruct (Nat.eq_dec nst 0) as [E|E].
+  - pose proof (Hpar O). unfold nst in E. lia.
+  - pose proof (Hst O ltac:(unfold nst in E; lia)). lia.
+Qed.
+
+Definition plain (n : list N) : Prop := n <> [] /\ n <> ROOT_NAME.
+
+(* MAIN (lookup): Cfb::find on the directory of a written container whose links are a tree is the
+   lookup of the specification, for every path — wherever the entries sit in the array *)
+Theorem find_entry_resolve : forall path, path <> [] -> (forall n, last_opt path = Some n -> plain n) ->
+  find_entry dirs path =
+  match resolve c 0 path with Some p => Some (entry_at c l (obj_slot l p)) | None => None end.
+Proof.
+  intros path Hne Hplain. unfold find_entry.
+  pose proof (@children_of_object 0 ltac:(lia)) as Hkids. change (obj_slot l 0) with 0 in Hkids.
+  destruct (children dirs 0) as [|x0 xs] eqn:Ech.
+  - (* no child of the root: no object at all *)
+    assert (Hno : nobj = O).
+    { destruct (Nat.eq_dec nobj 0) as [E|E]; [exact E|]. exfalso.
+      assert (Hr : In (nth 0 (l_slots l) 0) (children_slots c l 0)) by (apply root_has_child; lia).
+      apply (proj2 (Hkids _)) in Hr. destruct Hr. }
+    destruct path as [|n rest]; [contradiction|].
+    assert (Hnames : all_names c = []).
+    { pose proof (nobj_names Hv) as Hnn. fold nobj in Hnn. rewrite Hno in Hnn. destruct (all_names c); [reflexivity|discriminate]. }
+    cbn [resolve]. rewrite Hnames. cbn [child_index].
+    destruct (last_opt (n :: rest)) as [m|] eqn:El; [|reflexivity].
+    destruct (Hplain m eq_refl) as [H1 H2]. unfold dirs. rewrite (@find_dir_first c l m Hv H1 H2).
+    unfold first_slot, slot_table. unfold nobj in Hno. destruct (l_slots l); [reflexivity|discriminate].
+  - pose proof (@find_from_resolve path 0 ltac:(lia)) as Hfr. change (obj_slot l 0) with 0 in Hfr. rewrite Hfr.
+    destruct (resolve c 0 path) as [p|] eqn:Er; cbn [option_map]; [|reflexivity].
+    unfold dirs. apply nthN_parsed. apply obj_slot_lt. apply (resolve_le path (p := 0)); [lia|exact Er].
+Qed.
+
+End Lookup.
+
+Section Streams.
+Variables (c : container) (l : layout).
+Hypothesis Hv : valid_layout c l.
+Hypothesis Ht : linked_tree c l.
+
+Let nst := length (c_storages c).
+Let nobj := length (l_slots l).
+
+Lemma names_plain : forall k n, nth_error (all_names c) k = Some n -> plain n.
+Proof.
+  intros k n H. destruct (valid_dir Hv) as [_ [_ [_ [_ [Hval _]]]]].
+  apply valid_name_not_special. apply Hval. apply (nth_error_In _ _ H).
+Qed.
+
+(* a path the specification resolves to a stream *)
+Lemma spec_path_facts : forall path b, spec_path c path = Some b ->
+  path <> [] /\ (forall n, last_opt path = Some n -> plain n) /\
+  exists k n, resolve c 0 path = Some (N.of_nat (S (nst + k))) /\ nth_error (c_streams c) k = Some (n, b).
+Proof.
+  intros path b H. unfold spec_path in H. destruct (resolve c 0 path) as [p|] eqn:Er; [|discriminate].
+  fold nst in H. destruct (N.of_nat nst <? p) eqn:E; [|discriminate]. apply N.ltb_lt in E.
+  destruct (nth_error (c_streams c) (N.to_nat (p - N.of_nat nst) - 1)) as [[n b']|] eqn:En; [|discriminate].
+  inversion H; subst b'.
+  assert (Hne : path <> []) by (intros ->; cbn [resolve] in Er; inversion Er; lia).
+  split; [exact Hne|].
+  destruct (@resolve_last c l Hv path 0 p Hne Er) as [k [Ek [Hk Hl]]]. split.
+  - intros m Hm. rewrite Hm in Hl. apply (names_plain _ Hl).
+  - exists (N.to_nat (p - N.of_nat nst) - 1)%nat, n. split; [|exact En]. f_equal. lia.
+Qed.
+
+(* MAIN (streams): on any Cfb value holding the written tables, the stream the specification finds
+   at a path is read back byte for byte *)
+Theorem get_stream_path : forall cf r, written_cfb c l cf r ->
+  forall path b, spec_path c path = Some b -> exists c' r', get_stream cf path r = Ok (b, c', r').
+Proof.
+  intros cf r Hw path b Hs. destruct (spec_path_facts _ Hs) as [Hne [Hpl [k [n [Er Hk]]]]].
+  destruct (stream_slot_exists _ Hv Hk) as [s Hsl].
+  destruct (@stream_item_at c l k n b s Hv Hk Hsl) as [ch [Hch Hin]].
+  destruct (entry_at_item _ _ Hv Hin) as [_ [Est Eln]]. cbn [stream_item fst snd] in Est, Eln.
+  pose proof Hw as (Hdirs & _).
+  apply (@get_stream_of_entry c l cf r Hv Hw path n b ch (entry_at c l s) Hch); [|exact Est|exact Eln].
+  rewrite Hdirs, (@find_entry_resolve c l Hv Ht path Hne Hpl), Er. f_equal. f_equal.
+  rewrite (obj_slot_S c). unfold stream_slot in Hsl. fold nst in Hsl. apply nth_error_nth. exact Hsl.
+Qed.
+
+(* MAIN (C13, through the bytes): every stream of every container is read back byte for byte by
+   its path, for every valid physical layout whose links are a tree over the hierarchy — sector
+   size, chains, mini stream, FAT / DIFAT extent, directory order, unused entries, shape of the
+   sibling trees; names need only be unique per storage *)
+Theorem layout_independent : forall fuel, (fuel_for l <= fuel)%nat ->
+  forall path b, spec_path c path = Some b -> cfb_get_stream fuel (cfb_write c l) path = Ok b.
+Proof.
+  intros fuel Hfuel path b Hs. unfold cfb_get_stream.
+  destruct (cfb_new_written Hv Hfuel) as [cf [r [Hnew Hw]]]. rewrite Hnew. cbn [obind].
+  destruct (get_stream_path Hw _ Hs) as [c' [r' Hg]]. rewrite Hg. reflexivity.
+Qed.
+
+(* a path that leads to no object is not found (wherever objects of that name sit elsewhere) *)
+Theorem path_not_found : forall fuel, (fuel_for l <= fuel)%nat ->
+  forall path, path <> [] -> (forall n, last_opt path = Some n -> plain n) -> resolve c 0 path = None ->
+  cfb_get_stream fuel (cfb_write c l) path = Err ERR_NOT_FOUND.
+Proof.
+  intros fuel Hfuel path Hne Hpl Hr. unfold cfb_get_stream.
+  destruct (cfb_new_written Hv Hfuel) as [cf [r [Hnew (Hdirs & _)]]]. rewrite Hnew. cbn [obind].
+  unfold get_stream. rewrite Hdirs, (@find_entry_resolve c l Hv Ht path Hne Hpl), Hr. reflexivity.
+Qed.
+
+(* Cfb::has_directory: an object of the ROOT storage *)
+Theorem has_directory_root : forall fuel, (fuel_for l <= fuel)%nat ->
+  exists cf r, cfb_new fuel (cfb_write c l) = Ok (cf, r) /\ written_cfb c l cf r /\
+    forall n, plain n ->
+      has_directory cf n = match resolve c 0 [n] with Some _ => true | None => false end.
+Proof.
+  intros fuel Hfuel. destruct (cfb_new_written Hv Hfuel) as [cf [r [Hnew Hw]]].
+  exists cf, r. split; [exact Hnew|]. split; [exact Hw|]. intros n Hn. destruct Hw as (Hdirs & _).
+  unfold has_directory. rewrite Hdirs, (@find_entry_resolve c l Hv Ht [n]).
+  - destruct (resolve c 0 [n]); reflexivity.
+  - discriminate.
+  - intros m Hm. cbn [last_opt] in Hm. inversion Hm; subst m. exact Hn.
+Qed.
+
+Lemma workbook_plain : plain WORKBOOK /\ plain BOOK.
+Proof. repeat split; discriminate. Qed.
+
+(* MAIN (Xls::new): the bytes handed to the BIFF parser are those of the ROOT storage's Workbook
+   stream, or of its Book stream when the root has no Workbook — wherever the entries of embedded
+   objects (MBD.../Workbook, other VBA projects) sit in the directory array.  [root_storage_named]:
+   a root STORAGE called Workbook is outside the statement (the code takes any root entry of
+   that name) *)
+Theorem workbook_stream_preferred : forall fuel b, (fuel_for l <= fuel)%nat ->
+  spec_workbook c = Some b -> root_storage_named c WORKBOOK = false ->
   xls_workbook_stream fuel (cfb_write c l) = Ok b.
 Proof.
-  intros c l fuel k b Hv Hfuel Hspec Hknown.
-  unfold known_C13, wanted_slot in Hknown. rewrite Hspec in Hknown.
-  unfold spec_workbook in Hspec. destruct (root_stream c WORKBOOK) as [[k1 b1]|] eqn:Ew.
-  - inversion Hspec; subst k1 b1. destruct (root_stream_spec _ _ Ew) as [Hk _].
-    destruct (stream_slot_exists _ Hv Hk) as [s Hs]. rewrite Hs in Hknown.
-    destruct (@stream_item_at c l k WORKBOOK b s Hv Hk Hs) as [ch [_ Hin]].
-    unfold lookup_slot in Hknown. destruct (first_slot c l WORKBOOK) as [s1|] eqn:Ef.
-    + destruct (s1 =? s) eqn:E; [|discriminate]. apply N.eqb_eq in E. subst s1.
-      apply (proj1 (@workbook_stream_preferred c l fuel Hv Hfuel) k b s Hk Hs Ef).
-    + exfalso. apply (@min_slot_none _ _ Ef _ _ Hin). reflexivity.
-  - destruct (root_stream_spec _ _ Hspec) as [Hk _].
-    destruct (stream_slot_exists _ Hv Hk) as [s Hs]. rewrite Hs in Hknown.
-    destruct (@stream_item_at c l k BOOK b s Hv Hk Hs) as [ch [_ Hin]].
-    unfold lookup_slot in Hknown. destruct (first_slot c l WORKBOOK) as [s1|] eqn:Ef.
-    + destruct (s1 =? s) eqn:E; [|discriminate]. apply N.eqb_eq in E. subst s1.
-      exfalso. destruct (min_slot_some _ _ Ef) as [[it [Hin' Hn']] _].
-      rewrite (@slot_item_unique c l s _ _ Hv Hin' Hin) in Hn'. discriminate Hn'.
-    + destruct (first_slot c l BOOK) as [s2|] eqn:Eb.
-      * destruct (s2 =? s) eqn:E; [|discriminate]. apply N.eqb_eq in E. subst s2.
-        apply (proj2 (@workbook_stream_preferred c l fuel Hv Hfuel) k b s Ef Hk Hs Eb).
-      * exfalso. apply (@min_slot_none _ _ Eb _ _ Hin). reflexivity.
+  intros fuel b Hfuel Hspec Hrs. destruct workbook_plain as [Pw Pb].
+  destruct (cfb_new_written Hv Hfuel) as [cf [r [Hnew Hw]]].
+  unfold xls_workbook_stream. rewrite Hnew. cbn [obind]. unfold workbook_or_book.
+  unfold spec_workbook in Hspec. destruct (spec_path c [WORKBOOK]) as [bw|] eqn:Ew.
+  - inversion Hspec; subst bw. destruct (get_stream_path Hw _ Ew) as [c' [r' Hg]]. rewrite Hg. reflexivity.
+  - assert (Hnf : get_stream cf [WORKBOOK] r = Err ERR_NOT_FOUND).
+    { destruct Hw as (Hdirs & _). unfold get_stream.
+      rewrite Hdirs, (@find_entry_resolve c l Hv Ht [WORKBOOK]); [|discriminate|intros m Hm; inversion Hm; exact Pw].
+      destruct (resolve c 0 [WORKBOOK]) as [p|] eqn:Er; [|reflexivity]. exfalso.
+      destruct (@resolve_last c l Hv [WORKBOOK] 0 p ltac:(discriminate) Er) as [k [Ek [Hk _]]].
+      unfold root_storage_named in Hrs. rewrite Er in Hrs. unfold spec_path in Ew. rewrite Er in Ew.
+      fold nst in Hrs, Ew. destruct (N.of_nat nst <? p) eqn:E.
+      - apply N.ltb_lt in E.
+        destruct (nth_error (c_streams c) (N.to_nat (p - N.of_nat nst) - 1)) as [[n' b']|] eqn:En; [discriminate|].
+        apply nth_error_None in En. pose proof (nobj_split Hv) as Hsp. fold nst in Hsp. lia.
+      - apply N.ltb_ge in E. apply andb_false_iff in Hrs. destruct Hrs as [H|H]; [apply N.leb_gt in H|apply N.leb_gt in H]; lia. }
+    rewrite Hnf. destruct (get_stream_path Hw _ Hspec) as [c' [r' Hg]]. rewrite Hg. reflexivity.
+Qed.
+
+End Streams.
+
+(* two containers holding the same stream at the same path — any sector sizes, any layouts, any
+   directory orders, any sibling trees, any other objects — read the same bytes *)
+Corollary same_streams_same_read : forall c1 l1 c2 l2 path b,
+  valid_layout c1 l1 -> valid_layout c2 l2 -> linked_tree c1 l1 -> linked_tree c2 l2 ->
+  spec_path c1 path = Some b -> spec_path c2 path = Some b ->
+  cfb_get_stream (fuel_for l1) (cfb_write c1 l1) path = cfb_get_stream (fuel_for l2) (cfb_write c2 l2) path.
+Proof.
+  intros c1 l1 c2 l2 path b H1 H2 T1 T2 S1 S2.
+  rewrite (layout_independent H1 T1 (le_n _) _ S1), (layout_independent H2 T2 (le_n _) _ S2). reflexivity.
+Qed.
+
+(* ------------------------------------------------------------------ names and the root storage *)
+Lemma resolve_one_in_names : forall c n p, resolve c 0 [n] = Some p -> In n (all_names c).
+Proof.
+  intros c n p H. cbn [resolve] in H. destruct (child_index c 0 n 0 (all_names c)) as [k|] eqn:E; [|discriminate].
+  destruct (@child_index_some _ _ _ _ _ _ E) as [_ [Hn _]]. apply (nth_error_In _ _ Hn).
+Qed.
+
+(* an object of the root storage is found by resolve *)
+Lemma resolve_one_root : forall c k n, hier_okb c = true -> nth_error (all_names c) k = Some n ->
+  parent_of c k = 0 -> resolve c 0 [n] = Some (N.of_nat (S k)).
+Proof.
+  intros c k n Hh Hn Hp. cbn [resolve].
+  destruct (child_index c 0 n 0 (all_names c)) as [k'|] eqn:E.
+  - destruct (@child_index_some _ _ _ _ _ _ E) as [_ [Hn' Hp']]. rewrite Nat.sub_0_r in Hn'.
+    destruct (hier_facts _ Hh) as [_ [_ Hkey]]. f_equal. f_equal. f_equal.
+    apply Hkey; try (apply nth_error_Some; congruence); congruence.
+  - exfalso. apply (@child_index_none _ _ _ _ _ E k Hn). exact Hp.
+Qed.
+
+(* no hierarchy written: Cfb::has_directory answers for every object of the file, whatever storage
+   the container puts it in *)
+Theorem has_directory_flat : forall c l fuel, valid_layout c l -> flat_root c l -> (fuel_for l <= fuel)%nat ->
+  exists cf r, cfb_new fuel (cfb_write c l) = Ok (cf, r) /\ written_cfb c l cf r /\
+    forall n, plain n -> (has_directory cf n = true <-> In n (all_names c)).
+Proof.
+  intros c l fuel Hv Hfl Hfuel. destruct (cfb_new_written Hv Hfuel) as [cf [r [Hnew Hw]]].
+  exists cf, r. split; [exact Hnew|]. split; [exact Hw|]. intros n [H1 H2]. destruct Hw as (Hdirs & _).
+  unfold has_directory. rewrite Hdirs, find_entry_flat by (apply children_root_flat; assumption).
+  cbn [last_opt]. rewrite (@find_dir_first c l n Hv H1 H2). unfold first_slot.
+  destruct (min_slot n (slot_table c l)) as [s|] eqn:E.
+  - split; [intros _|reflexivity]. destruct (min_slot_some _ _ E) as [[it [Hin Hn]] _].
+    rewrite <- Hn. apply (slot_table_names _ _ _ _ Hin).
+  - split; [discriminate|]. intros Hin. exfalso.
+    destruct (valid_dir Hv) as [_ [_ [_ [Hlc _]]]].
+    rewrite <- (items_names_eq c l Hlc) in Hin. apply in_map_iff in Hin. destruct Hin as [it [Hn Hit]].
+    destruct (@item_in_dirs c l it Hv Hit) as [s [Hs _]]. apply (@min_slot_none _ _ E _ _ Hs). exact Hn.
+Qed.
+
+(* no hierarchy written, names distinct over the whole file: a container with both streams reads
+   Workbook, wherever the two entries are; one holding only Book reads Book *)
+Theorem flat_workbook_stream_preferred : forall c l fuel, valid_layout c l -> flat_root c l -> names_unique c ->
+  (fuel_for l <= fuel)%nat ->
+  (forall bw, In (WORKBOOK, bw) (c_streams c) -> xls_workbook_stream fuel (cfb_write c l) = Ok bw) /\
+  (forall bb, ~ In WORKBOOK (all_names c) -> In (BOOK, bb) (c_streams c) ->
+     xls_workbook_stream fuel (cfb_write c l) = Ok bb).
+Proof.
+  intros c l fuel Hv Hfl Hu Hfuel. destruct workbook_plain as [[W1 W2] [B1 B2]].
+  destruct (cfb_new_written Hv Hfuel) as [cf [r [Hnew Hw]]].
+  unfold xls_workbook_stream. rewrite Hnew. cbn [obind]. unfold workbook_or_book.
+  assert (G : forall n b, In (n, b) (c_streams c) -> exists c' r', get_stream cf [n] r = Ok (b, c', r')).
+  { intros n b Hin. apply In_nth_error in Hin. destruct Hin as [k Hk].
+    destruct (stream_slot_exists _ Hv Hk) as [s Hs].
+    apply (@get_stream_first c l cf r Hv Hfl Hw k n b s [] Hk Hs). apply (@first_slot_unique c l k n b s Hv Hu Hk Hs). }
+  split.
+  - intros bw Hin. destruct (G _ _ Hin) as [c' [r' Hg]]. rewrite Hg. reflexivity.
+  - intros bb Hno Hin.
+    assert (Ha : get_stream cf [WORKBOOK] r = Err ERR_NOT_FOUND).
+    { apply (@get_stream_absent_flat c l cf r WORKBOOK [] Hv Hfl Hw W1 W2).
+      apply min_slot_none_iff. intros s it Hsi Hn. apply Hno. rewrite <- Hn. apply (slot_table_names _ _ _ _ Hsi). }
+    rewrite Ha. destruct (G _ _ Hin) as [c' [r' Hg]]. rewrite Hg. reflexivity.
 Qed.
 
 (* ================================================================== Part 5: totality *)
@@ -2713,7 +3397,7 @@ Qed.
 Theorem get_stream_total : forall cf name r,
   get_stream cf name r <> Panic /\ get_stream cf name r <> OutOfFuel.
 Proof.
-  intros cf name r. unfold get_stream. destruct (find_dir name (directories cf)) as [d|]; [|split; discriminate].
+  intros cf name r. unfold get_stream. destruct (find_entry (directories cf) name) as [d|]; [|split; discriminate].
   destruct (d_len d =? 0); [split; discriminate|].
   destruct (d_len d <? 4096); (apply fine_bind; [apply get_chain_fine|]); intros [[b ms] r1] _; apply fine_ok.
 Qed.
